@@ -12,1159 +12,2833 @@ Definition show_fres (r : fres) : string :=
   end.
 Definition check (rs : list rune) : string := digest (show_fres (format_res rs)).
 Definition full (rs : list rune) : string := show_fres (format_res rs).
-Eval vm_compute in ("<<<M1768>>>" ++ check (runes_of_ascii "packet Logon {
-    repeat string a1 `crlf
-        line`,
-    @lengthOf(Pad)
-    match Pad as u8x {
-        4294967296 : i8i8,
+Eval vm_compute in ("<<<M3497>>>" ++ check (runes_of_ascii "options {
+    StringPrefixLenType = u8;
+    ArrayPrefixLenType = u64;
+    FixedStringPadFromLeft = true;
+    JavaPackage = ""com.example.msg"";
+    GoPackage = ""msg"";
+    GoModule = ""example.com/msg"";
+}
+MetaData Meta {
+    u32 SeqNum `sequence number`,
+    char[8] Symbol `symbol`,
+    zchar[5] ZSym `z symbol`,
+    string Note,
+    Symbol AltSymbol `alias of symbol`,
+    f64 Price,
+}
+packet Inner {
+    u8 a,
+    i16 b,
+    string c,
+}
+packet Inner2 {
+    u8 a2,
+    char[3] c2,
+}
+packet Logon {
+    u8 x,
+    string user,
+    repeat u16 codes,
+}
+packet Logout {
+    u16 reason,
+}
+packet Empty {
+}
+root packet Msg {
+    u8 su8,
+    uint8 luint8,
+    u16 su16,
+    uint16 luint16,
+    u32 su32,
+    uint32 luint32,
+    u64 su64,
+    uint64 luint64,
+    i8 si8,
+    int8 lint8,
+    i16 si16,
+    int16 lint16,
+    i32 si32,
+    int32 lint32,
+    i64 si64,
+    int64 lint64,
+    f32 sf32,
+    float32 lfloat32,
+    f64 sf64,
+    float64 lfloat64,
+    char[6] fsplain,
+    @leftPad('0') char[4] fs0,
+    @rightPad('0') char[5] fs1,
+    @leftPad(' ') char[6] fs2,
+    @rightPad(' ') char[7] fs3,
+    @leftPad('\x00') char[8] fs4,
+    @rightPad('\x00') char[9] fs5,
+    @leftPad() char[10] fs6,
+    @rightPad() char[11] fs7,
+    zchar[7] fz,
+    @leftPad('0') zchar[3] fzl0,
+    string s1 `doc`,
+    char[] s2,
+    Inner,
+    Sub {
+        u8 q,
+        string w,
+        Deep {
+            u16 z,
+            repeat i32 zs,
+        },
     },
-    asx a1,
-    // a // b
-    // @lengthOf(
-    @lengthOf(body)
-    //x
-    msg_type int,
-    tag `line1
-        line2`,
-    repeat Z9_ {
-        u16 packetx @calculatedFrom(""it's""),
+    repeat u8 ru8,
+    repeat u16 ru16,
+    repeat u32 ru32,
+    repeat u64 ru64,
+    repeat i8 ri8,
+    repeat i16 ri16,
+    repeat i32 ri32,
+    repeat i64 ri64,
+    repeat f32 rf32,
+    repeat f64 rf64,
+    repeat string rstr,
+    repeat char[] rstr2,
+    repeat char[3] rfs,
+    repeat zchar[3] rfz,
+    repeat Inner2,
+    repeat Grp {
+        u8 k,
+        char[2] v,
     },
-    @lengthOf(Logon)
+    SeqNum,
+    SeqNum seq2,
+    repeat SeqNum seqs,
+    Symbol,
+    AltSymbol alt,
+    ZSym,
+    Note,
+    repeat Symbol syms,
+    Price px,
+    u16 MsgType,
+    u32 BodyLen @lengthOf(Body),
+    match MsgType as Body {
+        1 : Logon,
+        [2, 3] : Logout,
+        7 : Logon,
+        9 : Empty,
+    },
+    u32 Checksum @calculatedFrom(""CRC32""),
+}
+")).
+Eval vm_compute in ("<<<M725>>>" ++ check (runes_of_ascii "packet
+i8i8{
+u32
+T @lengthOf( MetaDataX
+    )`u8 x,`
+// c
+// packet A { u8 x, }
+, // c
+As @calculatedFrom( ""abc"" )
+    // trailing space 
+    , @leftPad (' '
+    ) @calculatedFrom(
+    //
+    """ ++ [128512]%N ++ runes_of_ascii """
+    ) chars, // `tick` ""quote"" 'q'
+zchar[255 ]zchar , Packet asx ,
+// " ++ [128512]%N ++ runes_of_ascii " emoji
+// packet A { u8 x, }
+Z9_ charz , uint64 packetx
+,
+    @tag(
+3
+)@calculatedFrom( ""abc"")@tag( 007
+) repeat BodyLength	lengthOf , }	packet	pack {
+@lengthOf(rootA  )
+@tag( /// triple
+7
+    )
+@rightPad (// trailing space 
+' ' )
+body
+// `tick` ""quote"" 'q'
+// trailing space 
+x_y_z
+    ,
+a1
+{ f32 crc// `tick` ""quote"" 'q'
+@lengthOf(repeatCount  ) //
+, lengthOf
+    int
+`" ++ [28040; 24687; 31867; 22411]%N ++ runes_of_ascii "`
+,
+match pack as repeatCount {""1"":calculatedFrom
+,
+4294967296 // @lengthOf(
+: charz }
+, } , @tag( 255)
+@lengthOf( float ) repeat i32 options1	, @lengthOf(
+    msg_type) @leftPad
+(
+) @lengthOf(	body)
+uint8x body , }root packet
+    // c
+    x
+    { @tag(
+    7) repeat f32a rootA `line1
+line2`, @leftPad
+    (
+'\x00' )@calculatedFrom(
+""it's"" )
+    @lengthOf( i64_)
+// packet A { u8 x, }
+// " ++ [27880; 37322]%N ++ runes_of_ascii "
+repeat roots { metadata // " ++ [128512]%N ++ runes_of_ascii " emoji
+{ repeat calculatedFrom {f32
+x , uint64 A,
+    match
+// " ++ [128512]%N ++ runes_of_ascii " emoji
+// c
+leftPad
+as Pad { ""a	b""
+    : leftPad , 255 //	t
+:u8x , }  , } ,}  ,// c
+repeat char[ 0123456789]
+    //	t
+    falsey,	char[ 0 ] trueish
+@calculatedFrom(
+    ""packet""
+) ,	int16 repeatCount
+, } ,
+Packet @lengthOf(
+int )`line1
+line2`
+    ,	uint16 i64_ , Header { // 50% %s
+string metadata,
+    // `tick` ""quote"" 'q'
+    repeat Pad
+    pack, crc@lengthOf( Z9_	) `" ++ [233]%N ++ runes_of_ascii "`
+,
+}//x
+, @lengthOf( x_y_z ) @lengthOf( A ) @tag( 65535 )
+int8 Logon
+@calculatedFrom( ""`tick`""
+) `line1
+line2` , @calculatedFrom( ""packet"" ) u8x
+Foo`100% of %d`,roots
+@calculatedFrom(
+// `tick` ""quote"" 'q'
+//	t
+""\n""
+    ),x_y_z{ zchar[ 42// trailing space 
+]
+charz @lengthOf( u128
+) , leftPad
+`say ""hi""` ,}	,
+    }
+")).
+Eval vm_compute in ("<<<M3660>>>" ++ check (runes_of_ascii "packet
+
+    x_y_z
+{ @calculatedFrom(// `tick` ""quote"" 'q'
+  	""" ++ [128512]%N ++ runes_of_ascii """  ) uint16
+a1 
+,string
+crc  //
+, char[
+0123456789
+] charz`doc` 
+        //x
+  	,  //x
+
+	match
+	As as  packetx{ ""a\""b""
+:
+	MetaDataX	,""{,}"" 
+:
+
+    f32a	,42 :
+metadata 	 // " ++ [27880; 37322]%N ++ runes_of_ascii "
+  [	""1""
+	,
+    7
+]
+: chars ,}	,} 
+MetaData 
+T{ 	 //x
+	  uint8
+
+    f32a
+	`
+`	, 
+string MetaDataX 
+, char[	// 50% %s
+	0123456789// @lengthOf(
+    ]
+
+MetaDataX`tab	here`
+,
+	}
+packet//
+
+uint8x
+	{ }
+    packet 
+matchKey  {@tag( 00	// c
+
+  )
+	@tag(
+
+255 
+
+    // `tick` ""quote"" 'q'
+		)	@calculatedFrom(
+	//	t
+    ""a	b""
+
+)
+	body
+
+    @calculatedFrom( 
+""`tick`""
+
+)
+
+    ,// trailing space 
+
+@lengthOf(
+
+    matchKey 
+)
+    match i8i8
+as msg_type {
+00  :  float ,
+""{,}""
+
+:T
+
+}
+    ,@rightPad
+
+    (
+
+    '\x00'  )
+
+f64 trueish ,@lengthOf(chars
+)
+repeat string A	,  match Z9_ 	 // trailing space 
+	as 	 /// triple
+	metadata{
+[
+
+    42,  ""packet""
+]	: charz
+7
+	: body // 50% %s
+
+  7	: Z9_  ,
+
+} ,
+
+    zchar[ 00  ]
+float
+	`
+`,
+
+    @lengthOf(	leftPad 
+// c
+
+	)repeat x_y_z
+
+    metadata
+
+    , 	 // 50% %s
+  	@calculatedFrom(
+""a\\""
+
+)	@calculatedFrom( 
+""" ++ [28040; 24687]%N ++ runes_of_ascii """ )
+
+    match MetaDataX
+as
+	Pad
+	{
+""// no comment"" :pack
+,  }
+
+,
+
+    @tag(007	)
+	    /// triple
+
+	crc
+{ // @lengthOf(
+
+Z9_  { 
+u128 
+{repeat	repeatCount
+trueish , 
+As `crlf
+line`
+
+    ,
+repeat char[0123456789 
     // " ++ [128512]%N ++ runes_of_ascii " emoji
-    @rightPad()
-    @calculatedFrom(""" ++ [233]%N ++ runes_of_ascii "t" ++ [233]%N ++ runes_of_ascii """)
-    repeat roots u128,
-    @calculatedFrom(""{,}"")
-    chars {
-        match roots as Foo {
-            10 : trueish,
-        },
-    },
-    i8i8,
+]uint8x
+
+,
+
+string
+repeatCount
+
+    , } , repeat int16
+    i64_  ,
+repeat f32a Packet
+	``
+	,  },
+}	, }
+
+")).
+Eval vm_compute in ("<<<M4354>>>" ++ check (runes_of_ascii "options {
+    BodyLength = """ ++ [28040; 24687]%N ++ runes_of_ascii """
+    Header = '0';
+}
+
+root packet crc {
+    asx @lengthOf(crc) `" ++ [28040; 24687; 31867; 22411]%N ++ runes_of_ascii "`,
     @calculatedFrom(""x y"")
-    @calculatedFrom(""a\""b"")
-    repeat Z9_ {
-        f32a msg_type,
-        repeat o {
-            // " ++ [128512]%N ++ runes_of_ascii " emoji
-            // @lengthOf(
-            zchar[0] charz @calculatedFrom(""CRC32""),
+    @lengthOf(Logon)
+    repeat f32a {
+        i32 calculatedFrom @lengthOf(Packet) `// not a comment`,
+        charz @lengthOf(u),
+        match asx as As {
+            ""it's"" : _x,
+            ""x y"" : calculatedFrom,
+            ""packet"" : Pad,
         },
+        charz chars,
+    },
+    @leftPad(' ')
+    // `tick` ""quote"" 'q'
+    i8 A `line1
+    line2`,
+    repeat zchar[42] x,
+    As `" ++ [233]%N ++ runes_of_ascii "`,
+    char[] crc,
+    @calculatedFrom(""`tick`"")
+    Header {
+        match chars as float {
+            ""abc"" : matchKey,
+            007 : calculatedFrom,
+            // 50% %s
+            ""\n"" : i64_,
+            ""packet"" : i8i8,
+            [10, 0123456789] : roots,
+        },
+        metadata repeatCount,// " ++ [128512]%N ++ runes_of_ascii " emoji
     },
 }
 
-root packet BodyLength {
-    calculatedFrom {
-        char[] x @calculatedFrom(""\n""),// @lengthOf(
-        _x @calculatedFrom(""`tick`""),
-        repeat u128,
-        float Packet `" ++ [28040; 24687; 31867; 22411]%N ++ runes_of_ascii "`,
-    },
-    repeat Foo {
-        uint64 a1,
-    },/// triple
-    repeat char[42] matchKey `it's`,
-    lengthOf {
-        // " ++ [27880; 37322]%N ++ runes_of_ascii "
-        u128 trueish `// not a comment`,
-        match chars as MetaDataX {
-            00 : x_y_z,
-            1 : trueish,
-            [0123456789] : calculatedFrom,
-            [
-                ""CRC32"", ""\" ++ [233]%N ++ runes_of_ascii """, ""// no comment"", ""it's"", ""packet"",
-                007
-            ] : Pad,
+packet o {
+    u16 chars @calculatedFrom(""abc""),
+    repeat int {
+        uint8 len,
+        // `tick` ""quote"" 'q'
+        u128 asx,
+        match u128 as lengthOf {
+            ""it's"" : packetx,
+            0123456789 : a1,
+            ["""", 0123456789] : asx,
         },
     },
-    repeat char[] Logon,
-    @leftPad('0')
-    f32 Pad @calculatedFrom(""CRC32""),
-    @lengthOf(BodyLength)
-    options1 @calculatedFrom(""`tick`""),
-    A {
-        // " ++ [27880; 37322]%N ++ runes_of_ascii "
-        //	t
-        uint8 charz `u8 x,`,
-        falsey x `line1
-                line2`,
-        repeat int8 Packet,
-        zchar[1] float,
-    },
-    char[65535] matchKey @calculatedFrom(""x y""),
-    @lengthOf(o)
-    match chars as As {
-        1 : f32a,
-    },
+    char _x @lengthOf(repeatCount),
+    repeat uint64 u128,
 }
 
-packet int {
-    @calculatedFrom(""// no comment"")
-    @rightPad()
-    @calculatedFrom(""" ++ [233]%N ++ runes_of_ascii "t" ++ [233]%N ++ runes_of_ascii """)
-    roots _x `say ""hi""`,// `tick` ""quote"" 'q'
+root packet _x {
+    repeat int {
+        repeat Z9_ body,
+        // 50% %s
+        //x
+    },
+}
+// trailing space ")).
+Eval vm_compute in ("<<<M3522>>>" ++ check (runes_of_ascii "packet lengthOf {
+    @tag(3)
+    asx `{ , }`,
+}
+
+root packet chars {
+    @tag(0123456789)
+    match int as i8i8 {
+        [""" ++ [128512]%N ++ runes_of_ascii """, 65535] : Pad,
+        [
+            65535, 0123456789, ""a\""b"", ""a\""b"", 7,
+            ""abc"", 65535, 3
+        ] : repeatCount,
+    },
 }
 
 options {
-    o = ""{,}""
-    Pad = 255;
-}// " ++ [27880; 37322]%N)).
-Eval vm_compute in ("<<<M345>>>" ++ check (runes_of_ascii "// `tick` ""quote"" 'q'
-root	packet /// triple
-As { }packet x_y_z{@rightPad (
-) @tag( 42 )
-    @rightPad (' ' ) repeat f32a charz ,match Header as// a // b
-stringy { [ 1	,	4294967296 ]// packet A { u8 x, }
-: rootA ,
-0123456789 : x_y_z
-    , [
-    65535
-, 255]	:
-/// triple
+    chars = '\x00';
+}
+
+packet body {
+    i64 o,
+    @calculatedFrom("""")
+    @lengthOf(int)
+    match metadata as charz {
+        ""`tick`"" : lengthOf,
+        1 : repeatCount,
+        //	t
+        [""abc""] : uint8x,
+        ""\n"" : Pad,
+    },
+    @rightPad('0')
+    int64 msg_type @calculatedFrom(""\" ++ [233]%N ++ runes_of_ascii """),
+    @lengthOf(MetaDataX)
+    /// triple
+    zchar @calculatedFrom(""a\\""),
+}
+
+packet int {
+    @lengthOf(T)
+    MetaDataX {
+        options1 {
+            /// triple
+            match As as roots {
+                0 : asx,
+                [
+                    10, """", 1, 0123456789, ""CRC32"",
+                    3, ""a\\""
+                ] : int,
+                """" : leftPad,
+                [1, 1] : int,
+            },
+            uint8x float,
+        },
+        int16 Logon `" ++ [28040; 24687; 31867; 22411]%N ++ runes_of_ascii "`,
+        repeat pack {
+            repeat i16 packetx ``,
+            rootA string_,
+        },
+        zchar[0] Header `say ""hi""`,
+    },
+}")).
+Eval vm_compute in ("<<<M4437>>>" ++ check (runes_of_ascii "packet x {
+    A Foo `doc`,
+    zchar[0123456789] Header `line1
+        line2`,
+}
+
+packet int {
+    trueish @calculatedFrom(""x y""),
+}
+
+packet metadata {
+    asx @lengthOf(Packet),
+    match a1 as x_y_z {
+        255 : crc,
+        00 : x,
+        [0123456789] : MetaDataX,
+        255 : x,
+    },
+    f64 crc `two words`,
+    @tag(4294967296)
+    Z9_,
+    Header `crlf
+        line`,
+    charz Foo `" ++ [28040; 24687; 31867; 22411]%N ++ runes_of_ascii "`,
+    match trueish as trueish {
+        1 : chars,
+        7 : calculatedFrom,
+        ""a	b"" : u8x,
+        65535 : msg_type,
+        007 : Logon,
+    },// " ++ [27880; 37322]%N ++ runes_of_ascii "
+    o int,
+    @calculatedFrom(""CRC32"")
+    string Logon @lengthOf(trueish),
+}
+
+MetaData asx {
+}
+
+packet As {
+    zchar {
+        match len as zchar {
+            00 : repeatCount,
+            [""\n""] : rootA,
+            [""a\""b"", 10] : x_y_z,
+        },
+    },
+    @tag(0123456789)
+    @tag(0)
+    // " ++ [27880; 37322]%N ++ runes_of_ascii "
+    @leftPad()
+    repeat string MetaDataX,
+    repeat zchar[10] tag,
+    @calculatedFrom(""" ++ [233]%N ++ runes_of_ascii "t" ++ [233]%N ++ runes_of_ascii """)
+    int @lengthOf(x),
+    packetx As `100% of %d`,
+    @lengthOf(packetx)
+    string matchKey,
+    u8x i64_ `say ""hi""`,
+    i8 repeatCount,
+    x_y_z @lengthOf(u),
+}")).
+Eval vm_compute in ("<<<M421>>>" ++ check (runes_of_ascii "root packet asx {
+@tag(3 )int8 metadata `" ++ [233]%N ++ runes_of_ascii "` ,
+    //x
+    repeat char[] Z9_ ,	@rightPad// trailing space 
+('\x00')
+@lengthOf( Header )
+@lengthOf(crc ) MetaDataX { u64 u128 , } , //
+int16
+    leftPad	, @tag( 10)
+@tag( 4294967296
+    ) @leftPad (' ')	repeat u16 repeatCount `100% of %d`
+, @rightPad  () @tag( 0 )
+match crc as chars
+{
+0123456789 :  BodyLength , """ ++ [128512]%N ++ runes_of_ascii """
+    :	Logon, [ 10 , 255] // c
+: MetaDataX
+    ,	0123456789 ://	t
+Packet ,""// no comment"": T , 65535
+: charz,	} , match falsey
+as
+    //x
+    u128
+{
+[
+    """ ++ [28040; 24687]%N ++ runes_of_ascii """
+,""// no comment"" ] : leftPad,[ 65535
+]
+:
+    //
+    asx
+10 :u // " ++ [27880; 37322]%N ++ runes_of_ascii "
+, ""{,}"" // 50% %s
+: _x , }
+    ,
+// @lengthOf(
+// trailing space 
+match  As as
+    MetaDataX { 0123456789
+    : a1,
+[ 65535,
+    ""abc""
+    ]://	t
+tag //	t
+,
+    // `tick` ""quote"" 'q'
+    [
+""" ++ [233]%N ++ runes_of_ascii "t" ++ [233]%N ++ runes_of_ascii """,
+    ""`tick`"" ,	""\" ++ [233]%N ++ runes_of_ascii """	,
+    ""abc"" , ""\" ++ [233]%N ++ runes_of_ascii """ , ""packet""
+    , // " ++ [27880; 37322]%N ++ runes_of_ascii "
+""packet""
+] : o	00 : crc
+    } , } packet chars
+{ @calculatedFrom( ""x y"") char[ 255 ]  crc
+    // c
+    `100% of %d` , @tag( // a // b
+65535 ) f64
+    BodyLength@calculatedFrom(
+    ""CRC32"" ) ,
+    }")).
+Eval vm_compute in ("<<<M4063>>>" ++ check (runes_of_ascii "
+
+  root
+    packet
+leftPad{
+    repeat zchar[
+    1 ]Foo  `crlf
+line`
+
+    ,  i8
+	lengthOf , @tag(  3 )	repeat
+    repeatCount
+`say ""hi""` // @lengthOf(
+    , 
+match
+    repeatCount
+    as
+BodyLength{	// 50% %s
+  ""1"" :	metadata
+    , ""1"" 
+:i64_
+
+, [
+    7 
+,
+
+""\n""
+
+    ,
+	""{,}""
+    ,1
+	, ""a\""b"" ] :
+
+    i64_
+    ,
+    7  : i8i8
+    , 
+}
+,@calculatedFrom( 
+""""
+
+    )u8  string_  
+  // trailing space 
+	// " ++ [128512]%N ++ runes_of_ascii " emoji
+      @calculatedFrom(
+""" ++ [28040; 24687]%N ++ runes_of_ascii """ ),
+float64  
+  // @lengthOf(
+    //	t
+  Z9_
+	,
+
+    x{
+repeat
+
+packetx
+//	t
+    ,
+    int8
+As  // a // b
+
+`line1
+line2` ,u128
+    {  //	t
+
+	char[]
+
+BodyLength @calculatedFrom(
+	""a\""b"" )
+,
+
+repeat
+	x_y_z
+{
+	match
+
+    options1
+
+    as charz{	/// triple
+
+42 :
+
+    int,
+
+    007: float 
+,	""x y""
+:
+leftPad
+
+    ,
+	[ ""\" ++ [233]%N ++ runes_of_ascii """  ,
+1
+] 
+	    // packet A { u8 x, }
+
+// `tick` ""quote"" 'q'
+	: 
+lengthOf ,  //	t
+  }	, }
+	, },
+
+uint8x 
+`{ , }`
+
+    , } ,lengthOf 
+@lengthOf(
+    zchar )
+,
+
+char[]
+crc
+
+    `// not a comment`	,
+}  // @lengthOf(
+")).
+Eval vm_compute in ("<<<M970>>>" ++ check (runes_of_ascii "packet x {
+    @tag(	1 )// " ++ [27880; 37322]%N ++ runes_of_ascii "
+match crc as options1 {
+    ""x y"" : // trailing space 
+Packet ,
+// 50% %s
+// `tick` ""quote"" 'q'
+[ """"] : a1,
+// 50% %s
 // a // b
-metadata ,
-[	7 , """ ++ [233]%N ++ runes_of_ascii "t" ++ [233]%N ++ runes_of_ascii """, ""{,}"" ,""{,}"" ] : T
+7
+    : Packet
+    ,
+} ,
+@leftPad ( ' ' )zchar[ 7
+] asx ,
+@rightPad
+// " ++ [128512]%N ++ runes_of_ascii " emoji
+// trailing space 
+('\x00')
+    @rightPad ( ' ' )
+//	t
+//x
+repeat// `tick` ""quote"" 'q'
+leftPad
+{ tag { repeat uint64 charz	,} , }, @tag( 4294967296) len body `it's`
+    // " ++ [27880; 37322]%N ++ runes_of_ascii "
+    , char[
+    3
+] trueish
+@calculatedFrom( ""CRC32""
+)
+    ,}  packet A { match Pad as Z9_ { ""packet"" : f32a , ""{,}""
+: f32a // a // b
+7 :
+    _x
+,00 :  repeatCount ,
+    // c
+    4294967296
+: asx
+, ""CRC32"" : u128
+},
 // trailing space 
 // " ++ [27880; 37322]%N ++ runes_of_ascii "
-,""packet"" :
-    chars , // trailing space 
-[ 42
-    , //
-00] : Logon,} ,repeat i8i8 {
-tag @calculatedFrom(// " ++ [27880; 37322]%N ++ runes_of_ascii "
-""" ++ [128512]%N ++ runes_of_ascii """ )`{ , }` , }
-,Z9_ @lengthOf(
-    Packet
-    // @lengthOf(
-    ) ,
-    // trailing space 
-    lengthOf
-    ,
-trueish {
-zchar[ 007/// triple
-]
-    packetx, zchar[ 0123456789
-] MetaDataX `// not a comment`
-, rootA @lengthOf(Z9_)
-    `" ++ [233]%N ++ runes_of_ascii "`, }
-,	} root// a // b
-packet u8x { float64 len@calculatedFrom( ""packet"" )
-//
-// " ++ [27880; 37322]%N ++ runes_of_ascii "
-, u8 calculatedFrom , @calculatedFrom( ""a\""b""
-) @calculatedFrom( ""\n"") // trailing space 
-@lengthOf(
-    Foo ) Logon @lengthOf(	i8i8) , // trailing space 
-@calculatedFrom(
-""a\\"") falsey@calculatedFrom(
-""" ++ [233]%N ++ runes_of_ascii "t" ++ [233]%N ++ runes_of_ascii """)`line1
-line2` ,@leftPad('\x00' )
+u16 float  ``
+, @tag( 1 )
     // c
-    match
-i64_	as
-    // c
-    i64_{ [
-    0123456789 ] :  a1
-,[ ""1"" ,
-3 , //
-3 , 7 , 0
-] :string_ ,
-    """"// `tick` ""quote"" 'q'
-:
-    i64_ , }, @lengthOf( As )
-    // packet A { u8 x, }
-    T{zchar[ 0] roots
-@lengthOf(
-options1 )
-    , /// triple
-u16 pack
-    ,//
-} ,/// triple
-string// `tick` ""quote"" 'q'
-x	`crlf
-line`
-, }")).
-Eval vm_compute in ("<<<M127>>>" ++ check (runes_of_ascii "root packet As// `tick` ""quote"" 'q'
-{
-    @calculatedFrom( ""{,}""	)zchar[ 4294967296
-    // packet A { u8 x, }
-    ]As ,@tag( 7 ) repeat
-    pack
-    {body
-    {// trailing space 
-zchar[
-65535 //x
-] MetaDataX `doc`
-, string_ @lengthOf( // " ++ [27880; 37322]%N ++ runes_of_ascii "
-Logon  ) , i64 MetaDataX@calculatedFrom( """" )// " ++ [27880; 37322]%N ++ runes_of_ascii "
-`a\`, //x
-repeat char[] Foo,	} ,
+    @tag(65535
+) @rightPad ( )repeat
+uint64
+// c
 /// triple
-// packet A { u8 x, }
-},@lengthOf( MetaDataX
-    ) @calculatedFrom(
-""\n""	) @lengthOf( float )
-char[ 0123456789 ] a1 @calculatedFrom( ""a\""b"") ,
-repeat msg_type  { // `tick` ""quote"" 'q'
-repeat f64 Packet`a\` , int64 asx@calculatedFrom( ""{,}"" )`" ++ [233]%N ++ runes_of_ascii "`  ,zchar[3  ]
-    metadata	,	zchar[
-00 ] x_y_z
-    @calculatedFrom( ""CRC32""
-) , }, } packet calculatedFrom // a // b
-{ match calculatedFrom as BodyLength{ 65535
-: Foo ,
-    }, match
-    int as falsey {  42 : body, [ ""abc""
-// " ++ [128512]%N ++ runes_of_ascii " emoji
-// " ++ [27880; 37322]%N ++ runes_of_ascii "
-,
-    ""\n"" , ""abc""
-,""" ++ [28040; 24687]%N ++ runes_of_ascii """	]:stringy
-    // `tick` ""quote"" 'q'
-    , [0123456789
-, ""{,}""
-,
-42
-    , 1
-]// " ++ [27880; 37322]%N ++ runes_of_ascii "
-: trueish , ""`tick`"" :metadata ,  [ ""1"" , ""a	b"" , 42
-]
-: zchar}
-    ,repeat zchar[  4294967296 ]stringy `line1
-line2`
-, } options // @lengthOf(
-{stringy= // packet A { u8 x, }
-' '/// triple
-; }")).
-Eval vm_compute in ("<<<M1556>>>" ++ check (runes_of_ascii "options {
-    StringPrefixLenType = u64;
-    ArrayPrefixLenType = u16;
-    FixedStringPadChar = ' ';
-}
-packet Logon {
-    i32 msgKind,
-    repeat InOrderid65 {
-        u8 pad0,
-    },
-    i8 tag7,
-    @leftPad(' ') char[12] x,
-}
-packet Leg {
-    char[] f1,
-    repeat char[5] Px,
-    InQty34 {
-        repeat char[6] Qty,
-        char[7] seqNo,
-        string count,
-    },
-    Logon,
-}
-packet Party {
-    @leftPad('0') char[10] OrderId,
-    string Tail,
-}
-packet Fill {
-    zchar[5] venue,
-    zchar[3] clOrdID,
-    InRef95 {
-        InLastpx25 {
-            u8 pad0,
-        },
-        float64 OrderId,
-        i32 f1,
-        float32 x,
-        char[] seqNo,
-    },
-    repeat string seqNo,
-}
-root packet Heartbeat {
-    repeat Leg,
-    u32 seqNo,
-    u16 tag7,
-    u32 Flags @lengthOf(Body),
-    match tag7 as Body {
-        [195, 75] : Party,
-        171 : Fill,
-        78 : Logon,
-        142 : Leg,
-    },
-    u32 Note @calculatedFrom(""CR\
-C32""),
-}
-")).
-Eval vm_compute in ("<<<M2102>>>" ++ check (runes_of_ascii "  // top
-  	packet 
-    // c0
-  	MDSnapshotZZ	// c1a
-  // c1b
-	{// c2
-
-u8 // c3a
-  // c3b
-a 
-        // c4
-  ,// c5
-}
-	packet 	 // c7
-
-	OrderACK
-        // c8
-{
-// c9
-    u16	// c10
-  b  // c11
-    ,}
-
-    // c13
-  packet	// c14
-  HTTPServerInfo// c15a
-	// c15b
-{	// c16a
-  // c16b
-    string	// c17a
-	// c17b
-      s// c18
-    , 
-} 	 // c20
-	root packet 
-    // c22
-
-FIXMsg
-	// c23
-    {// c24a
-	// c24b
-
-u8  // c25a
-		// c25b
-  	KType 
-	// c26
-,// c27
-
-MDSnapshotZZ  // c28
-		,
-
-repeat 
-      // c30
-	  OrderACK	// c31a
-// c31b
-    ,  // c32a
-// c32b
-  match	KType as
-	Body
-// c36
-	  {// c37a
-	// c37b
-	1 // c38
-    : // c39
-  HTTPServerInfo
-    , 2
-: 	 // c43a
-  // c43b
-  OrderACK 
-	    // c44
-  ,  // c45
-}  // c46
-    , 
-
-    // c47
-    } // c48")).
-Eval vm_compute in ("<<<M1577>>>" ++ check (runes_of_ascii "// top
-options
-    // c0
-{ // c1
-LittleEndian // c2a
-  // c2b
-= // c3a
-  // c3b
-true // c4
-; // c5a
-  // c5b
-}
-    // c6
-packet // c7a
-  // c7b
-Logon
-    // c8
-{ // c9a
-  // c9b
-u8
-    // c10
-x
-    // c11
-, string
-    // c13
-user
-    // c14
-, // c15a
-  // c15b
-}
-    // c16
-packet // c17a
-  // c17b
-Logout
-    // c18
-{ // c19
-u16 // c20
-reason // c21a
-  // c21b
-, } // c23a
-  // c23b
-packet
-    // c24
-Empty // c25a
-  // c25b
-{ // c26
-} // c27a
-  // c27b
-root
-    // c28
-packet Frame // c30
-{ u16 // c32
-MsgType , u16 BodyLen // c36
-@lengthOf( // c37
-Body // c38
-) , // c40a
-  // c40b
-u8 // c41
-flags , Logon Body
-    // c45
-, // c46
-u32 trailer , // c49a
-  // c49b
-}
-    // c50
-")).
-Eval vm_compute in ("<<<M1495>>>" ++ check (runes_of_ascii "// top
-packet // c0a
-  // c0b
-A { // c2
-u8 // c3a
-  // c3b
-a , } // c6a
-  // c6b
-packet // c7a
-  // c7b
-B // c8
-{ // c9a
-  // c9b
-u16
-    // c10
-b // c11a
-  // c11b
-, // c12a
-  // c12b
-}
-    // c13
-root // c14a
-  // c14b
-packet // c15
-P
-    // c16
-{
-    // c17
-u8 // c18
-K // c19
-, // c20a
-  // c20b
-match
-    // c21
-K
-    // c22
-as // c23a
-  // c23b
-M // c24
-{ // c25
+Header ,
+    u64 repeatCount
+    , match //	t
+asx as float
+{ // a // b
 [
-    // c26
-1 // c27a
-  // c27b
-, // c28
-2
-    // c29
-]
-    // c30
-: A // c32a
-  // c32b
-, // c33a
-  // c33b
-3 :
-    // c35
-B , // c37a
-  // c37b
-7 // c38a
-  // c38b
-: // c39a
-  // c39b
-A
-    // c40
-, } , } // c44a
-  // c44b
-")).
-Eval vm_compute in ("<<<M126>>>" ++ check (runes_of_ascii "root packet pack { @calculatedFrom(	""`tick`"")
-    @calculatedFrom(
-    // " ++ [128512]%N ++ runes_of_ascii " emoji
-    ""\n"" ) @tag( 0123456789 )match zchar as string_ {	[ ""packet"" ] //
-:  i8i8 , [
-0123456789 , 7	] :string_ ,
-//x
-// `tick` ""quote"" 'q'
-0 : options1 ,
-""\" ++ [233]%N ++ runes_of_ascii """
-:// `tick` ""quote"" 'q'
-Foo	,}
-, @lengthOf(	calculatedFrom )
-Foo	@lengthOf(
-    x)
-`crlf
-line`
-, lengthOf @lengthOf(int )  ,T , @lengthOf(  rootA) zchar[
-007 ]
-// " ++ [128512]%N ++ runes_of_ascii " emoji
+    3	]
+    :
+MetaDataX ,
+}
+, match repeatCount
+as
+calculatedFrom
+{	""" ++ [233]%N ++ runes_of_ascii "t" ++ [233]%N ++ runes_of_ascii """	: calculatedFrom [""" ++ [28040; 24687]%N ++ runes_of_ascii """] : falsey ,
+}
+    ,
+}")).
+Eval vm_compute in ("<<<M821>>>" ++ check (runes_of_ascii "options{
+    // a // b
+    }  packet // c
+crc{ } packet // 50% %s
+x {
+@lengthOf(// " ++ [27880; 37322]%N ++ runes_of_ascii "
+calculatedFrom
 // packet A { u8 x, }
-x`crlf
-line` , @calculatedFrom(
-    ""\n""	) repeat f64	chars
-, matchKey _x, }")).
-Eval vm_compute in ("<<<M1492>>>" ++ check (runes_of_ascii "// top
-packet // c0
-A
+// @lengthOf(
+)match Packet as charz{[ """" ] :f32a
+    , [ // 50% %s
+""a\""b"" ] : MetaDataX//	t
+, 7 : crc, 10: metadata	, 7: BodyLength ,
+    ""packet"" :
+    string_}
+, @lengthOf(options1  ) repeat Header `// not a comment`
+    // " ++ [27880; 37322]%N ++ runes_of_ascii "
+    , // `tick` ""quote"" 'q'
+@calculatedFrom(""" ++ [128512]%N ++ runes_of_ascii """	)
+    int64 trueish // `tick` ""quote"" 'q'
+@lengthOf(a1 ) `tab	here` ,
+    int
+    @lengthOf( _x
+)
+    ,
+    match
+trueish as body {0123456789 :
+    metadata , 00
+    : asx
+    , 0123456789
+: falsey // 50% %s
+, 4294967296:MetaDataX
+10 :charz , [ 4294967296
+//	t
+// `tick` ""quote"" 'q'
+]: calculatedFrom,} ,  char[] Foo
+, } options { }	packet u8x
+    {
+repeat  crc
+    //x
+    , u8x
+@lengthOf(packetx
+    )
+`" ++ [28040; 24687; 31867; 22411]%N ++ runes_of_ascii "`	, zchar[4294967296
+// 50% %s
+//x
+] Header  @lengthOf(  T  ) `tab	here`
+,
+    }
+")).
+Eval vm_compute in ("<<<M4263>>>" ++ check (runes_of_ascii "
+root	//
+
+packet // " ++ [27880; 37322]%N ++ runes_of_ascii "
+  u  { leftPad{
+    lengthOf T
+
+`say ""hi""` 
+, rootA	u128`say ""hi""`//x
+  ,
+}
+, }
+root
+
+packet  // packet A { u8 x, }
+f32a	{ 
+        //
+	@tag( 7) match
+	uint8x 
+// c
+	  as
+i64_{
+	[ 7
+
+, ""it's""	, ""a\\""	, 65535	]: int ,
+255
+    :
+    _x
+
+,
+""x y""
+    :
+BodyLength	,
+}
+
+,repeat  u32
+    i64_ ,  uint8x{
+i8
+
+leftPad  `a\` , } ,	@leftPad(
+)
+
+@lengthOf(
+    matchKey
+	)
+	@rightPad 
+(
+	' '  )zchar[ 42 ]Header // trailing space 
+
+	@lengthOf(
+_x ) , i64
+	repeatCount, 
+}	//x
+      packet 
+roots 
+{
+
+    a1
+`tab	here`
+    , }  options {	Z9_
+=
+    // @lengthOf(
+	// " ++ [27880; 37322]%N ++ runes_of_ascii "
+    char[] 
+    //x
+    roots =
+
+    int32
+
+    matchKey  =
+""// no comment"";
+uint8x=
+
+""packet""
+	;} 
+    // 50% %s
+      MetaData
+	_x
+{ o
+
+    lengthOf
+,  i8
+    metadata
+
+,
+char[
+    0123456789
+
+    ]
+o,
+
+i32
+	// @lengthOf(
+  _x ,
+zchar[ 10]
+	MetaDataX
+,} ")).
+Eval vm_compute in ("<<<M4280>>>" ++ check (runes_of_ascii "
+
+  packet
+
+    //	t
+	tag	{
+	@tag( 	 // trailing space 
+	  1 )
+@calculatedFrom(	""abc""
+)
+    char[]Logon ,  char[] 
+Logon  @calculatedFrom(
+""a\\""  ) ,
+uint8x
+    { 
+    // a // b
+	//
+	char[] float ,
+
+    repeat
+char[] zchar  ,match
+
+f32a
+    as
+
+f32a
+	{ ""abc"" : options1	,
+	007
+    :  _x 
+10 
+        // c
+// packet A { u8 x, }
+	:
+
+BodyLength , 
+}
+    , }	, @lengthOf(f32a )
+
+@lengthOf( 
+Header )
+
+    @lengthOf(
+	msg_type )
+	repeat Logon
+
+    i64_
+	,
+
+@calculatedFrom(
+    """ ++ [28040; 24687]%N ++ runes_of_ascii """	)  repeat
+	int
+roots
+    ,	/// triple
+
+  @lengthOf(	zchar
+    )
+
+i16
+
+    stringy@calculatedFrom(
+""it's""
+    )
+`u8 x,`
+,  @calculatedFrom(  // @lengthOf(
+  ""{,}""
+
+) match string_ as	MetaDataX	{
+[""// no comment"" //x
+      ,
+
+    007  ] : i8i8
+	, [
+	1// c
+  ,""packet"" ]
+    : trueish ,}
+	,
+    //
+
+/// triple
+	}
+
+")).
+Eval vm_compute in ("<<<M575>>>" ++ check (runes_of_ascii "packet
+// @lengthOf(
+// @lengthOf(
+BodyLength { @tag(255)
+o @calculatedFrom( """" ) ,  zchar[ 1
+] crc@lengthOf( // `tick` ""quote"" 'q'
+BodyLength
+    ) ,
+    repeat zchar `100% of %d` ,
+    u64 Foo
+// 50% %s
+// trailing space 
+,
+@rightPad
+(
+    '\x00' ) @lengthOf(falsey ) int64 trueish
+    @lengthOf( chars ) `say ""hi""` ,
+int@calculatedFrom(	""a	b"" ) `u8 x,` , match repeatCount as repeatCount {
+    42: // c
+msg_type [  ""a	b"" ,
+42 ]: Logon , ""packet"": uint8x
+// packet A { u8 x, }
+// " ++ [128512]%N ++ runes_of_ascii " emoji
+, 7
+: // packet A { u8 x, }
+u8x
+    ,
+    // a // b
+    ""\" ++ [233]%N ++ runes_of_ascii """ : metadata , },	@leftPad
+( ' '
+    //	t
+    )
+match charz as _x
+    { [ """ ++ [233]%N ++ runes_of_ascii "t" ++ [233]%N ++ runes_of_ascii """ , ""abc"" /// triple
+]//x
+: Packet
+,
+    ""a\""b"":	MetaDataX [ ""CRC32"",
+// trailing space 
+// " ++ [128512]%N ++ runes_of_ascii " emoji
+""// no comment""	] : uint8x, }  , }
+")).
+Eval vm_compute in ("<<<M4387>>>" ++ check (runes_of_ascii "  MetaData
+    crc
+{	} // c
+    	packet
+	// `tick` ""quote"" 'q'
+	  // " ++ [128512]%N ++ runes_of_ascii " emoji
+  Header
+
+    { 
+calculatedFrom
+	matchKey `" ++ [233]%N ++ runes_of_ascii "`,
+    @leftPad	(
+'\x00')
+i64 	 // a // b
+
+  Logon,@tag(
+0
+
+)
+
+    char[
+4294967296 
+] i8i8
+, 
+@tag(
+    255
+	)
+
+char zchar  //	t
+
+	@calculatedFrom(
+
+    ""// no comment""
+    )	, 
+@lengthOf(
+
+asx //
+
+	) 
+float ,@calculatedFrom(
+    """ ++ [28040; 24687]%N ++ runes_of_ascii """) repeat int32 As	//	t
+
+  , 
+zchar
+    `" ++ [28040; 24687; 31867; 22411]%N ++ runes_of_ascii "` 	 // c
+    ,  // @lengthOf(
+  u32
+
+_x@calculatedFrom(
+	""a\\""
+
+)`u8 x,`	,
+
+    @calculatedFrom( 
+""\n""
+	)
+	char[] BodyLength	// 50% %s
+
+	`" ++ [233]%N ++ runes_of_ascii "`
+
+    ,
+
+    } root
+packet chars
+
+    {
+
+zchar[
+00  ]
+	Z9_,
+
+}
+options { i8i8=
+	10  A  = 
+
+//
+  	// " ++ [27880; 37322]%N ++ runes_of_ascii "
+' ' 
+	    //	t
+	//	t
+  ;float
+=
+
+'0'
+	msg_type
+= ""x y""; 
+leftPad
+
+    =
+' '; }
+")).
+Eval vm_compute in ("<<<M4400>>>" ++ check (runes_of_ascii "  packet 
+    //x
+
+  Foo	{
+	BodyLength body `" ++ [28040; 24687; 31867; 22411]%N ++ runes_of_ascii "`  ,	match calculatedFrom
+
+    as	// @lengthOf(
+_x
+
+{42
+	:  //
+    zchar	,
+
+    },
+leftPad  
+      // @lengthOf(
+      @calculatedFrom(""a	b"" ) `two words`
+
+    ,zchar[ 3]lengthOf , repeat float64
+	Pad
+
+,
+repeat
+    tag {
+
+char[] lengthOf
+
+    `// not a comment`
+, Foo {uint8x
+
+roots 
+,
+u8x  @calculatedFrom(
+
+    ""`tick`""
+)// `tick` ""quote"" 'q'
+	`100% of %d`
+
+,
+repeat
+	Packet  // " ++ [27880; 37322]%N ++ runes_of_ascii "
+
+{
+	zchar[  0
+	]  As
+@calculatedFrom( 
+    // c
+	""" ++ [128512]%N ++ runes_of_ascii """
+        // " ++ [128512]%N ++ runes_of_ascii " emoji
+    )
+	,
+	} , roots
+    @calculatedFrom(
+
+""x y""	// 50% %s
+	) 
+, }	, } , _x
+
+    @calculatedFrom(""`tick`"")
+    `{ , }` ,  // packet A { u8 x, }
+      @rightPad  ( ' ') uint64
+	x_y_z
+	,
+}
+
+")).
+Eval vm_compute in ("<<<M1010>>>" ++ check (runes_of_ascii "// `tick` ""quote"" 'q'
+MetaData  x{ zchar[
+    3	] // c
+matchKey , } MetaData
+As {
+    char[]x_y_z `two words` , } root packet x
+{ i8 Pad @calculatedFrom( ""1"" // packet A { u8 x, }
+) `" ++ [233]%N ++ runes_of_ascii "`,
+    @lengthOf(chars // " ++ [27880; 37322]%N ++ runes_of_ascii "
+)len Z9_ , @lengthOf( Foo )	char x_y_z @lengthOf( x_y_z)// trailing space 
+, // " ++ [27880; 37322]%N ++ runes_of_ascii "
+@leftPad
+    ( '0' )
+    x  @calculatedFrom(""a\\"" ) ,
+string
+Pad , char[ 10]
+//x
+// " ++ [27880; 37322]%N ++ runes_of_ascii "
+Packet
+, @leftPad( '\x00' // c
+) stringy@lengthOf( matchKey )	`// not a comment` , @calculatedFrom(// trailing space 
+""// no comment""
+    ) f32
+    stringy@calculatedFrom( ""1"" )	, u64
+u
+    // 50% %s
+    ,  match
+uint8x	as Header
+    {	[ 0123456789
+    , 00 ]
+    // 50% %s
+    : MetaDataX, } , }")).
+Eval vm_compute in ("<<<M3476>>>" ++ check (runes_of_ascii "// top
+options // c0
+{
     // c1
-{ // c2a
-  // c2b
-u8 // c3a
+LittleEndian = true // c4a
+  // c4b
+; // c5
+StringPrefixLenType // c6a
+  // c6b
+= u32 ; // c9
+FixedStringPadFromLeft // c10a
+  // c10b
+= // c11
+false ; FixedStringPadChar
+    // c14
+= // c15a
+  // c15b
+'0' ;
+    // c17
+} // c18a
+  // c18b
+packet // c19
+Party
+    // c20
+{ // c21
+int16 Acct // c23a
+  // c23b
+, }
+    // c25
+packet Quote
+    // c27
+{
+    // c28
+} // c29
+root // c30a
+  // c30b
+packet
+    // c31
+Order // c32
+{ // c33
+string
+    // c34
+Side2 // c35a
+  // c35b
+, repeat // c37
+string // c38a
+  // c38b
+OrderId // c39a
+  // c39b
+, repeat // c41
+string venue , // c44
+Quote , // c46a
+  // c46b
+} // c47a
+  // c47b
+")).
+Eval vm_compute in ("<<<M221>>>" ++ check (runes_of_ascii "packet
+uint8x
+    // a // b
+    {body
+,
+i64 uint8x
+@calculatedFrom(""`tick`""
+// @lengthOf(
+//
+)
+`u8 x,`
+, match
+    _x
+as Z9_{ [  10	, 00 ,42
+//
+// " ++ [128512]%N ++ runes_of_ascii " emoji
+,	""\n"" ,42
+, ""`tick`"" ]:x  } ,@lengthOf( metadata
+)  zchar[  00 ]	charz @calculatedFrom( ""packet"" )	`` , A
+{repeat pack {a1 @lengthOf( i64_) `" ++ [28040; 24687; 31867; 22411]%N ++ runes_of_ascii "`, packetx @lengthOf(
+body) `100% of %d`
+, repeat char[
+255// c
+] a1
+    , // trailing space 
+o rootA`line1
+line2` , }
+    , }	, uint8x{
+crc @calculatedFrom(
+    ""x y""  ) , } ,  u16 MetaDataX // " ++ [128512]%N ++ runes_of_ascii " emoji
+@lengthOf( f32a ) ,@lengthOf(
+// @lengthOf(
+// 50% %s
+i64_ ) int8// 50% %s
+f32a , @calculatedFrom(""CRC32"") string f32a
+    , } //x")).
+Eval vm_compute in ("<<<M649>>>" ++ check (runes_of_ascii "MetaData Packet // @lengthOf(
+{
+calculatedFrom
+    msg_type ,
+    char[ 42
+]
+    u8x , //x
+} packet body{
+    } packet i64_	{ @calculatedFrom(
+    ""// no comment"" ) a1
+`" ++ [233]%N ++ runes_of_ascii "`,
+}packet BodyLength{charz @lengthOf( chars ) , @calculatedFrom(
+""abc"" ) repeat  u32 falsey ,
+    @calculatedFrom( ""a	b"" )	@lengthOf( T
+    // " ++ [27880; 37322]%N ++ runes_of_ascii "
+    )
+f32 A@lengthOf( /// triple
+packetx)
+`// not a comment`
+// " ++ [128512]%N ++ runes_of_ascii " emoji
+//x
+, @rightPad
+    // packet A { u8 x, }
+    ( )metadata `// not a comment` , repeat repeatCount f32a	,@tag(007
+)
+@calculatedFrom(
+    ""{,}"" )
+    //
+    string
+    // `tick` ""quote"" 'q'
+    options1, int16 zchar	, }
+")).
+Eval vm_compute in ("<<<M3445>>>" ++ check (runes_of_ascii "packet u128 // c1a
+  // c1b
+{ u8 // c3a
   // c3b
 a // c4a
   // c4b
-, } packet // c7
-B
+, } // c6a
+  // c6b
+root packet
     // c8
-{ // c9
-u16 // c10
-b , // c12a
-  // c12b
-} // c13
-root // c14a
+Msg // c9a
+  // c9b
+{ // c10a
+  // c10b
+u8 k
+    // c12
+, // c13a
+  // c13b
+u24 // c14a
   // c14b
-packet P // c16
-{ u8 // c18
-K // c19
-, // c20a
+{ // c15
+u8 // c16
+Hi // c17a
+  // c17b
+, // c18a
+  // c18b
+u16
+    // c19
+Lo // c20a
   // c20b
-match // c21a
+, // c21a
   // c21b
-K
-    // c22
-as // c23a
-  // c23b
-M
-    // c24
+} // c22
+, // c23
+repeat // c24a
+  // c24b
+i24 // c25a
+  // c25b
 {
-    // c25
-1 // c26a
-  // c26b
-: // c27
-A // c28
-, 1 : // c31a
-  // c31b
-B // c32
-, // c33
-} // c34
-,
-    // c35
-} // c36
-")).
-Eval vm_compute in ("<<<M365>>>" ++ check (runes_of_ascii "root
-packet //x
-pack
-{ match matchKey //	t
-as
-int // @lengthOf(
-{ 00 : metadata
-    ,
-    ""a\\""
-    : o ,
-""// no comment"" :// `tick` ""quote"" 'q'
-x ,
-[
-""packet""] : A
-, [ ""\n"",0123456789 , 00 , ""// no comment"" ,007 ,
-255,
-1 ,// c
-0 ]
-    // a // b
-    : metadata ,[ 00] : Pad ,} , } // @lengthOf(
-MetaData tag
-{uint64 i64_`doc` ,
-    } packet BodyLength { repeat
+    // c26
 u32
-u128 , }
+    // c27
+q // c28a
+  // c28b
+,
+    // c29
+} // c30a
+  // c30b
+, // c31a
+  // c31b
+u128 // c32a
+  // c32b
+, u16 float32x , // c36a
+  // c36b
+string
+    // c37
+s // c38
+, }
+    // c40
 ")).
-Eval vm_compute in ("<<<M1570>>>" ++ check (runes_of_ascii "options {
-    FixedStringPadFromLeft = true;
-    FixedStringPadChar = ' ';
-}
-packet Reject {
-}
-packet Fill {
-    repeat i16 Tail,
-}
-root packet Trade {
-    float64 Ref,
-    Fill,
-    u8 Note,
-    u16 count @lengthOf(Body),
-    match Note as Body {
-        [98, 101] : Fill,
-        34 : Reject,
-    },
-    u32 x @calculatedFrom(""CR\
-C32""),
-}
-")).
-Eval vm_compute in ("<<<M2115>>>" ++ check (runes_of_ascii "
+Eval vm_compute in ("<<<M3513>>>" ++ check (runes_of_ascii "
+packet
+pack// " ++ [27880; 37322]%N ++ runes_of_ascii "
 
-  // `tick` ""quote"" 'q'
-MetaData  pack
-    { string 
-MetaDataX 
-,//
-  zchar[	65535
-	]
-	i8i8 , pack
-rootA
+	{
+	zchar[ 007 ]chars
+, int {
 
-`say ""hi""` ,string_  Header`crlf
+char[]  asx
+    `two words`,zchar[ 42
+
+    ]
+
+a1`crlf
 line` 
 ,
+    tag Packet,
 
-int64
-string_
-    , 
+tag
 
-/// triple
-	//	t
-char[] packetx  ,
-}options 
-{trueish=
-' ';
-i64_= i16 pack  =  u16
+    @lengthOf(i8i8)
+`crlf
+line`
 
-;
-	len=
-    false	}	MetaData
-i64_{ }
-")).
-Eval vm_compute in ("<<<M667>>>" ++ check (runes_of_ascii "root packet tag { }  packet MetaDataX{char[@lengthOf 007	]
-// c
-/// triple
-asx  @calculatedFrom( ""a\""b""
-) `say ""hi""`// " ++ [27880; 37322]%N ++ runes_of_ascii "
-,  @tag(4294967296 )
-    char[1//x
-] packetx @calculatedFrom(""a\""b""
-    ) ,
+, }  ,	uint16
+Packet `two words` ,
+    @calculatedFrom(  ""abc"" 
+)@calculatedFrom(
+
+    // c
 // " ++ [128512]%N ++ runes_of_ascii " emoji
-// a // b
-@calculatedFrom(""" ++ [233]%N ++ runes_of_ascii "t" ++ [233]%N ++ runes_of_ascii """  ) repeat pack // " ++ [27880; 37322]%N ++ runes_of_ascii "
+    	""" ++ [28040; 24687]%N ++ runes_of_ascii """  )// `tick` ""quote"" 'q'
+  @lengthOf( MetaDataX)
+
+    char[
+7
+	]roots@lengthOf( 
+matchKey)
+
+    ,  } options{
+tag=
+	'0' packetx
+
+    =
+""packet""
+;  matchKey = char[	3
+
+    ] ;MetaDataX =true
+	}
+root	packet repeatCount  {
+	T @lengthOf( int	) // @lengthOf(
+      ,
+} ")).
+Eval vm_compute in ("<<<M195>>>" ++ check (runes_of_ascii "options // a // b
+{
+}
+    root
+    packet	A{
+    @tag( 00 )
+int64 u8x
+,// @lengthOf(
+@calculatedFrom( ""a\""b"" )// packet A { u8 x, }
+repeat
+    crc
+    , @tag(
+    10
+) x_y_z , char[] u`line1
+line2`	, }
+    root packet leftPad { float
+@lengthOf(
+packetx )	, match msg_type
+as
+    // `tick` ""quote"" 'q'
+    matchKey{ [ ""it's"" , ""x y"",
+1 ] // " ++ [128512]%N ++ runes_of_ascii " emoji
+:i8i8 , [ ""a	b""
+, 42
+// `tick` ""quote"" 'q'
+// @lengthOf(
 ,
-    } // c")).
-Eval vm_compute in ("<<<M1460>>>" ++ check (runes_of_ascii "packet B { // c2
-u8 a ,
+    // packet A { u8 x, }
+    00 ] :
+    string_// c
+,  """ ++ [28040; 24687]%N ++ runes_of_ascii """ :asx,} ,char[ // a // b
+0123456789
+    ] roots  `say ""hi""` , }
+// " ++ [27880; 37322]%N ++ runes_of_ascii "
+")).
+Eval vm_compute in ("<<<M1143>>>" ++ check (runes_of_ascii "MetaData stringy
+{ i32 leftPad `" ++ [233]%N ++ runes_of_ascii "`
+, u32 crc ,	x_y_z Z9_  `crlf
+line`,
+Header int ,uint16// a // b
+charz,
+    } // @lengthOf(
+root packet len{ _x lengthOf, uint8x
+@calculatedFrom( """ ++ [128512]%N ++ runes_of_ascii """
+    // a // b
+    ) ,@rightPad ('\x00'
+    )	@calculatedFrom(""" ++ [128512]%N ++ runes_of_ascii """	)
+@leftPad
+    (
+    '0'
+    ) repeat crc {
+// packet A { u8 x, }
+// trailing space 
+char[
+007 ] BodyLength ,  charz @calculatedFrom( ""a	b"" )`{ , }` , uint16 matchKey
+    // `tick` ""quote"" 'q'
+    @calculatedFrom( ""it's""  ) // @lengthOf(
+,
+    /// triple
+    } , }
+")).
+Eval vm_compute in ("<<<M359>>>" ++ check (runes_of_ascii "root packet leftPad { @calculatedFrom( ""1""
+    // " ++ [128512]%N ++ runes_of_ascii " emoji
+    )
+@lengthOf(	stringy) @calculatedFrom(
+""it's"" )x @lengthOf(u)
+    `doc` , @leftPad() repeat i64_ {packetx `{ , }`  ,
+    }	,
+repeat u128
+    { repeat matchKey
+, zchar[ 7 // trailing space 
+]matchKey
+, // " ++ [27880; 37322]%N ++ runes_of_ascii "
+i8
+Packet@calculatedFrom( ""1""  ),
+} , // c
+char[]
+int
+    @lengthOf(
+x_y_z  ) , // a // b
+}MetaData
+Logon { u64 falsey
+,char[ 3 ] T , stringy float , char[ 7] Pad
+    , zchar[0
+]
+    // @lengthOf(
+    BodyLength ,}
+
+")).
+Eval vm_compute in ("<<<M768>>>" ++ check (runes_of_ascii "packet zchar{
+    char[
+7] i64_ `tab	here`,
+    @lengthOf(	u128
+    )
+    // " ++ [27880; 37322]%N ++ runes_of_ascii "
+    @calculatedFrom(
+// packet A { u8 x, }
+//x
+""" ++ [233]%N ++ runes_of_ascii "t" ++ [233]%N ++ runes_of_ascii """
+    )
+    @calculatedFrom( """ ++ [233]%N ++ runes_of_ascii "t" ++ [233]%N ++ runes_of_ascii """  )
+    calculatedFrom
+lengthOf `doc`	,char len ,match  int as
+Pad{ ""a\\"" : falsey ,	255 :lengthOf ,},	match
+rootA
+as Foo  { 42 :
+zchar [""`tick`""  ,
+""{,}""
+/// triple
+// @lengthOf(
+] : stringy,}
+    , char[ 00 ] int	@lengthOf( u128 )	,	}
+packet T
+{ @leftPad (
+// " ++ [27880; 37322]%N ++ runes_of_ascii "
+// @lengthOf(
+'0'
+)repeat
+pack , }")).
+Eval vm_compute in ("<<<M791>>>" ++ check (runes_of_ascii "options //x
+{ msg_type
+= ""it's"" roots=10 ;leftPad
+/// triple
+// " ++ [27880; 37322]%N ++ runes_of_ascii "
+= string	;  } packet tag { repeat
+    leftPad { i16 i64_ , char[]T @calculatedFrom( ""a\""b"" ) ,
+} ,}options {
+// 50% %s
+// " ++ [128512]%N ++ runes_of_ascii " emoji
+asx  = string;
+body /// triple
+='0' ;  } packet
+// " ++ [128512]%N ++ runes_of_ascii " emoji
+// " ++ [128512]%N ++ runes_of_ascii " emoji
+i8i8 { // c
+match msg_type
+    as
+    asx {""it's"" : falsey // `tick` ""quote"" 'q'
+,[ 4294967296 ,3
+// trailing space 
+// c
+] :
+    tag
+    , """ ++ [233]%N ++ runes_of_ascii "t" ++ [233]%N ++ runes_of_ascii """
+: MetaDataX, 0 :
+packetx , } ,
+}")).
+Eval vm_compute in ("<<<M3860>>>" ++ check (runes_of_ascii "packet MDSnapshotZZ {
+    // c2
+    u8 a,// c5a
+    // c5b
+}// c6
+
+packet OrderACK {
+    // c9
+    u16 b,// c12
+}
+
+packet HTTPServerInfo {
+    string s,// c19
+}// c20a
+
+// c20b
+root packet FIXMsg {
+    // c24a
+    // c24b
+    u8 KType,// c27
+    MDSnapshotZZ,
+    repeat OrderACK,// c32a
+    // c32b
+    match KType as Body {
+        1 : HTTPServerInfo,
+        // c41
+        2 : OrderACK,
+        // c45
+    },
+}// c48a
+// c48b")).
+Eval vm_compute in ("<<<M380>>>" ++ check (runes_of_ascii "
+options
+    {
+    Foo= 00;zchar= 65535
+    }
+    root packet  tag { } // " ++ [27880; 37322]%N ++ runes_of_ascii "
+MetaData
+    MetaDataX { zchar[10
+/// triple
+//	t
+] metadata  ,
+uint16
+    // packet A { u8 x, }
+    Z9_
+    //	t
+    `line1
+line2` , x_y_z lengthOf // " ++ [128512]%N ++ runes_of_ascii " emoji
+`
+`,uint16 BodyLength, char[] BodyLength	`// not a comment` ,}
+packet uint8x{
+    stringy , }
+    // `tick` ""quote"" 'q'
+    root
+    packet u128 {repeat
+    f32	Packet,
+}
+")).
+Eval vm_compute in ("<<<M1376>>>" ++ check (runes_of_ascii "packet leftPad {repeat  matchKey // @lengthOf(
+Pad , char[]	x_y_z @calculatedFrom(
+    ""CRC32""
+)
+`100% of %d`
+, repeat char[]
+    // " ++ [128512]%N ++ runes_of_ascii " emoji
+    Logon ,
+@calculatedFrom(""`tick`""
+) uint32 x
+    // @lengthOf(
+    , i8 u `// not a comment` ,
+// c
+// a // b
+uint64 a1
+,As
+@lengthOf(
+a1) `{ , }`, char[ 7 ]	o , repeat
+// " ++ [27880; 37322]%N ++ runes_of_ascii "
+// packet A { u8 x, }
+len , body
+    Logon , }  root	packet uint8x {
+}
+")).
+Eval vm_compute in ("<<<M3791>>>" ++ check (runes_of_ascii "packet
+
+falsey
+    {  repeat u8
+    Logon, char[]
+
+f32a  , 
+tag	rootA
+,
+//
+@rightPad
+    ( 
+' ' // `tick` ""quote"" 'q'
+  ) @tag(
+007) match o
+
+    as
+
+_x{ [  1
+, 
+""a	b""  ,
+""1"",
+    00
+,
+7 ,
+    // `tick` ""quote"" 'q'
+
+  """ ++ [233]%N ++ runes_of_ascii "t" ++ [233]%N ++ runes_of_ascii """,
+
+7  ,
+00 ] :	Foo  ,
+""\" ++ [233]%N ++ runes_of_ascii """ :
+
+    matchKey
+,  },
+
+    @rightPad (
+
+'\x00'
+
+)
+string msg_type
+
+,
+repeat
+    u8x
+
+    ,repeat BodyLength
+
+    ,}
+
+")).
+Eval vm_compute in ("<<<M406>>>" ++ check (runes_of_ascii "// c
+packet string_{x @lengthOf( charz ) `u8 x,` , } options { T // packet A { u8 x, }
+= char[ 3
+] ;
+a1 =65535
+    //x
+    ;msg_type  = string ;
+MetaDataX //	t
+= uint8
+; } MetaData // trailing space 
+u /// triple
+{ char[ 1
+] repeatCount `line1
+line2`,f32 i8i8, // " ++ [128512]%N ++ runes_of_ascii " emoji
+char[]
+matchKey``// " ++ [27880; 37322]%N ++ runes_of_ascii "
+,// c
+stringy Foo,zchar[ 007] i8i8`doc`	, u8x
+i64_ `" ++ [233]%N ++ runes_of_ascii "`
+,  }
+")).
+Eval vm_compute in ("<<<M4115>>>" ++ check (runes_of_ascii "
+MetaData 
+options1
+
+    { u16
+
+    stringy 
+,
+    }
+	packet
+
+stringy {	// packet A { u8 x, }
+	  zchar 
+	    // " ++ [128512]%N ++ runes_of_ascii " emoji
+  @calculatedFrom(
+""`tick`""
+)
+    ,@rightPad (
+    '\x00'
+	) 
+@leftPad(
+	'\x00' )@leftPad 
+( '\x00'
+	)rootA @calculatedFrom( 
+""" ++ [28040; 24687]%N ++ runes_of_ascii """  )	, @leftPad  ( 
+'\x00')char[
+    0
+
+] u@calculatedFrom(	""`tick`"" ) ,	// a // b
+
+  }
+")).
+Eval vm_compute in ("<<<M346>>>" ++ check (runes_of_ascii "options{  float=
+00 stringy
+    =char[] // c
+lengthOf = 0123456789
+    ; rootA
+// " ++ [128512]%N ++ runes_of_ascii " emoji
+// 50% %s
+= ""\" ++ [233]%N ++ runes_of_ascii """ ; //
+MetaDataX =
+    int8 }
+root	packet tag
+{@rightPad (
+)
+    @tag( 10)
+@calculatedFrom(	""it's"" )zchar[ 00
+] tag
+    , }
+// `tick` ""quote"" 'q'
+// trailing space 
+MetaData roots
+{} options{
+falsey =zchar[ 42]
+;
+}
+// " ++ [27880; 37322]%N ++ runes_of_ascii "
+")).
+Eval vm_compute in ("<<<M3805>>>" ++ check (runes_of_ascii "
+packet	T
+{ } MetaData MetaDataX{
+matchKey
+	trueish ,
+
+}
+
+options
+
+{
+tag
+
+=
+
+    false ;
+
+    zchar =
+    i64; //
+	lengthOf = 007 ;
+T	=f32
+Pad
+	=  
+      //x
+
+	// `tick` ""quote"" 'q'
+  	i32 ;
+}
+	packet
+
+uint8x  {
+match
+o
+    as
+u128
+{ ""a\""b"" 
+: 
+Pad ,	},
+
+} 
+options  {
+	Logon  // " ++ [128512]%N ++ runes_of_ascii " emoji
+
+  = string ; 
+} ")).
+Eval vm_compute in ("<<<M479>>>" ++ check (runes_of_ascii "root packet packetx {	} root packet u8x// " ++ [27880; 37322]%N ++ runes_of_ascii "
+{
+u
+repeatCount `u8 x,` ,repeat
+    uint16
+crc,@tag( 7 ) char[] i8i8
+@lengthOf( packetx )
+`{ , }`, @lengthOf( Logon// @lengthOf(
+)
+// `tick` ""quote"" 'q'
+//x
+char[] pack @calculatedFrom( ""a\""b"" )
+    , repeat metadata Foo ,
+u8x // " ++ [27880; 37322]%N ++ runes_of_ascii "
+lengthOf	,  A Header , }
+")).
+Eval vm_compute in ("<<<M3622>>>" ++ check (runes_of_ascii "options {
+    LittleEndian = true;
+    StringPrefixLenType = u32;
+    FixedStringPadFromLeft = false;
+    FixedStringPadChar = '0';
+}
+
+packet Party {
+    int16 Acct,
+}
+
+packet Quote {
+}
+
+root packet Order {
+    string Side2,
+    repeat string OrderId,
+    repeat string venue,
+    Quote,
+}")).
+Eval vm_compute in ("<<<M396>>>" ++ check (runes_of_ascii "// @lengthOf(
+options
+{ // " ++ [128512]%N ++ runes_of_ascii " emoji
+Logon
+=int8
+    ;
+Pad= 10  ; _x
+=string } root packet  u128 { // c
+uint8
+    tag
+    `100% of %d`
+// trailing space 
+// @lengthOf(
+,f32a x_y_z `100% of %d` ,@rightPad ( )int64 stringy ,
+    /// triple
+    u128 @calculatedFrom( ""1"" ), }
+//
+")).
+Eval vm_compute in ("<<<M1572>>>" ++ check (runes_of_ascii "// 50% %s
+packet	a1
+    { zchar[
+// a // b
+// 50% %s
+007]
+T `it's`
+    ,@rightPad
+    // a // b
+    (
+'\x00' '\x00')
+    o repeatCount , }  packet Logon {  }packet	Logon //x
+{ repeat // " ++ [128512]%N ++ runes_of_ascii " emoji
+uint16 u128
+    //
+    `a\`,
+falsey
+@calculatedFrom(""packet"" ) ,
+    } 	 ")).
+Eval vm_compute in ("<<<M1522>>>" ++ check (runes_of_ascii "// 50% %s
+packet	a1 a1
+    { zchar[
+// a // b
+// 50% %s
+007]
+T `it's`
+    ,@rightPad
+    // a // b
+    (
+'\x00')
+    o repeatCount , }  packet Logon {  }packet	Logon //x
+{ repeat // " ++ [128512]%N ++ runes_of_ascii " emoji
+uint16 u128
+    //
+    `a\`,
+falsey
+@calculatedFrom(""packet"" ) ,
+    } 	 ")).
+Eval vm_compute in ("<<<M3428>>>" ++ check (runes_of_ascii "
+packet
+    MDSnapshotZZ
+{
+u8
+
+    a,
+    }	packet
+
+OrderACK{
+u16  b	,}
+packet
+HTTPServerInfo {
+
+string
+	s 
+, }root
+packet
+
+FIXMsg{u8  KType
+,MDSnapshotZZ  ,
+repeat 
+OrderACK  ,
+
+    match KType
+as	Body
+	{
+1
+
+: HTTPServerInfo ,
+
+2 :
+OrderACK ,},
+    }
+")).
+Eval vm_compute in ("<<<M1593>>>" ++ check (runes_of_ascii "// 50% %s
+packet	a1
+    { zchar[
+// a // b
+// 50% %s
+007]
+T `it's`
+    ,@rightPad
+    // a // b
+    (
+'\x00')
+    o repeatCount } ,  packet Logon {  }packet	Logon //x
+{ repeat // " ++ [128512]%N ++ runes_of_ascii " emoji
+uint16 u128
+    //
+    `a\`,
+falsey
+@calculatedFrom(""packet"" ) ,
+    } 	 ")).
+Eval vm_compute in ("<<<M1596>>>" ++ check (runes_of_ascii "// 50% %s
+packet	a1
+    { zchar[
+// a // b
+// 50% %s
+007]
+T `it's`
+    ,@rightPad
+    // a // b
+    (
+'\x00')
+    o repeatCount ,   packet Logon {  }packet	Logon //x
+{ repeat // " ++ [128512]%N ++ runes_of_ascii " emoji
+uint16 u128
+    //
+    `a\`,
+falsey
+@calculatedFrom(""packet"" ) ,
+    } 	 ")).
+Eval vm_compute in ("<<<M128>>>" ++ check (runes_of_ascii "options
+//x
+/// triple
+{ a1
+=
+    ' ';
+stringy=
+'\x00'string_
+    = ' ' ; lengthOf
+    = 7
+;
+}packet Pad {
+    uint32 As`a\`  , }
+//	t
+/// triple
+packet a1 /// triple
+{ @calculatedFrom( ""`tick`"") i16 body `tab	here` ,	}	options { As
+    = true // a // b
+}")).
+Eval vm_compute in ("<<<M3389>>>" ++ check (runes_of_ascii "// top
+options // c0a
+  // c0b
+{ // c1
+LittleEndian = // c3
+true // c4
+;
     // c5
 }
     // c6
 root // c7
-packet P { u8
-    // c11
-K // c12
-, // c13
-match K as Body
-    // c17
-{ // c18a
-  // c18b
-1 : B // c21
-,
-    // c22
-} ,
-    // c24
-u16 // c25
-L // c26
-@lengthOf(
-    // c27
-Body // c28
-)
-    // c29
-, }
-    // c31
-")).
-Eval vm_compute in ("<<<M520>>>" ++ check (runes_of_ascii "root packet tag { }  packet MetaDataX{007 char[	]
-// c
-/// triple
-asx  @calculatedFrom( ""a\""b""
-) `say ""hi""`// " ++ [27880; 37322]%N ++ runes_of_ascii "
-,  @tag(4294967296 )
-    char[1//x
-] packetx @calculatedFrom(""a\""b""
-    ) ,
-// " ++ [128512]%N ++ runes_of_ascii " emoji
-// a // b
-@calculatedFrom(""" ++ [233]%N ++ runes_of_ascii "t" ++ [233]%N ++ runes_of_ascii """  ) repeat pack // " ++ [27880; 37322]%N ++ runes_of_ascii "
-,
-    } // c")).
-Eval vm_compute in ("<<<M560>>>" ++ check (runes_of_ascii "root packet tag { }  packet MetaDataX{char[007	]
-// c
-/// triple
-asx  @calculatedFrom( ""a\""b""
-) `say ""hi""`// " ++ [27880; 37322]%N ++ runes_of_ascii "
-@tag(  ,4294967296 )
-    char[1//x
-] packetx @calculatedFrom(""a\""b""
-    ) ,
-// " ++ [128512]%N ++ runes_of_ascii " emoji
-// a // b
-@calculatedFrom(""" ++ [233]%N ++ runes_of_ascii "t" ++ [233]%N ++ runes_of_ascii """  ) repeat pack // " ++ [27880; 37322]%N ++ runes_of_ascii "
-,
-    } // c")).
-Eval vm_compute in ("<<<M648>>>" ++ check (runes_of_ascii "root packet tag { }  packet MetaDataX{char[007	]
-// c
-/// triple
-asx  @calculatedFrom( ""a\""b""
-) `say ""hi""`// " ++ [27880; 37322]%N ++ runes_of_ascii "
-,  @tag(4294967296 )
-    char[1//x
-] packetx @calculatedFrom(""a\""b""
-    ) ,
-// " ++ [128512]%N ++ runes_of_ascii " emoji
-// a // b
-@calculatedFrom(""" ++ [233]%N ++ runes_of_ascii "t" ++ [233]%N ++ runes_of_ascii """  ) repeat pack // " ++ [27880; 37322]%N ++ runes_of_ascii "
-,
-     // c")).
-Eval vm_compute in ("<<<M543>>>" ++ check (runes_of_ascii "root packet tag { }  packet MetaDataX{char[007	]
-// c
-/// triple
-asx  @calculatedFrom( 
-) `say ""hi""`// " ++ [27880; 37322]%N ++ runes_of_ascii "
-,  @tag(4294967296 )
-    char[1//x
-] packetx @calculatedFrom(""a\""b""
-    ) ,
-// " ++ [128512]%N ++ runes_of_ascii " emoji
-// a // b
-@calculatedFrom(""" ++ [233]%N ++ runes_of_ascii "t" ++ [233]%N ++ runes_of_ascii """  ) repeat pack // " ++ [27880; 37322]%N ++ runes_of_ascii "
-,
-    } // c")).
-Eval vm_compute in ("<<<M1177>>>" ++ check (runes_of_ascii "// top
-MetaData // c0a
-  // c0b
-float // c1
+packet P // c9
 {
-    // c2
-float64 // c3
-charz // c4a
-  // c4b
-`
-`
-    // c5
-,
-    // c6
-} root // c8
-packet // c9a
-  // c9b
-chars
     // c10
-{ @rightPad ( '0' // c14
-)
-    // c15
-Foo
-    // c16
+u16 a // c12
 ,
-    // c17
-} ")).
-Eval vm_compute in ("<<<M1175>>>" ++ check (runes_of_ascii "// top
-MetaData // c0
-float // c1
-{ // c2
-float64 // c3
-charz // c4
-`
-` // c5
-, // c6
-} // c7
-root // c8
-packet // c9
-chars // c10
-{ // c11
-@rightPad // c12
-( // c13
-'0' // c14
-) // c15
-Foo // c16
-, // c17
-} // c18
+    // c13
+u32
+    // c14
+Sum // c15
+@calculatedFrom( ""CRC32"" // c17
+)
+    // c18
+, // c19
+}
+    // c20
 ")).
-Eval vm_compute in ("<<<M162>>>" ++ check (runes_of_ascii "MetaData
-    lengthOf
+Eval vm_compute in ("<<<M1258>>>" ++ check (runes_of_ascii "/// triple
+packet MetaDataX {@lengthOf(	u8x	) @lengthOf(	BodyLength
+    // " ++ [128512]%N ++ runes_of_ascii " emoji
+    ) @leftPad
+( ' ') repeat
+    uint64 metadata
+`" ++ [28040; 24687; 31867; 22411]%N ++ runes_of_ascii "` ,  u32 rootA
+`100% of %d`,
+} MetaData A {uint8 Packet `doc` , } options
+    // `tick` ""quote"" 'q'
+    { }
+")).
+Eval vm_compute in ("<<<M3830>>>" ++ check (runes_of_ascii "root packet zchar {
+    @calculatedFrom(""\" ++ [233]%N ++ runes_of_ascii """)
+    @rightPad()
+    @rightPad('\x00')
+    int8 Foo,
+}
+
+packet calculatedFrom {
+    u8x `doc`,
+}
+
+MetaData x {
+}
+
+options {
+    repeatCount = ""x y"";
+    leftPad = """ ++ [128512]%N ++ runes_of_ascii """
+    tag = uint8
+}
+//	t")).
+Eval vm_compute in ("<<<M623>>>" ++ check (runes_of_ascii "options
 {
-char[0123456789] calculatedFrom ,
-char[ 0
-]
-options1
-    ,
-    } MetaData  repeatCount
-{ // packet A { u8 x, }
-u64 len ,
-    stringy x_y_z `it's` // a // b
-, f32 As ,	}
-")).
-Eval vm_compute in ("<<<M295>>>" ++ check (runes_of_ascii "  MetaData x_y_z { string msg_type`" ++ [233]%N ++ runes_of_ascii "`, } packet chars{ repeat i32 metadata`say ""hi""` ,@leftPad ( ) @tag( 0123456789
-)repeat zchar[
+    o=
+i16 ; crc  =true ; zchar
+= ""\" ++ [233]%N ++ runes_of_ascii """ ; u128= """ ++ [128512]%N ++ runes_of_ascii """ ;}
     // a // b
-    007]
-    //x
-    lengthOf , }
+    MetaData
+Logon
+{ string options1`doc`	, char[//
+007] int`" ++ [233]%N ++ runes_of_ascii "`, } MetaData pack
+{
+x rootA
+,	roots u8x `crlf
+line` ,
+a1 Z9_ `line1
+line2` , }
 ")).
-Eval vm_compute in ("<<<M407>>>" ++ check (runes_of_ascii "packet
-    // `tick` ""quote"" 'q'
-    crc
-// packet A { u8 x, }
-//	t
-{
-u32 65535 ,
-    // trailing space 
-    roots
-charz //
-`two words`,	}
-    MetaData int {
-} /// triple")).
-Eval vm_compute in ("<<<M684>>>" ++ check (runes_of_ascii "root packet len // trailing space 
-{
-// " ++ [27880; 37322]%N ++ runes_of_ascii "
-//	t
-char[10
-] metadata	@lengthOf( o ) `crlf
-line`,
-    '@rightPad
-( ' '
-) string
-    Header @calculatedFrom( ""a\\""
-    ), }
-")).
-Eval vm_compute in ("<<<M709>>>" ++ check (runes_of_ascii "root packet len // trailing space 
-{
-// " ++ [27880; 37322]%N ++ runes_of_ascii "
-//	t
-char[10
-] metadata	@lengthOf( o ) `crlf
-line`@rightPad
-    ,
-( ' '
-) string
-    Header @calculatedFrom( ""a\\""
-    ), }
-")).
-Eval vm_compute in ("<<<M477>>>" ++ check (runes_of_ascii "packet
-    // `tick` ""quote"" 'q'
-    crc
-// packet A { u8 x, }
-//	t
-{
-u32 a1 ,
-    // trailing space 
-    " ++ [21517; 23383]%N ++ runes_of_ascii "
-charz //
-`two words`,	}
-    MetaData int {
-} /// triple")).
-Eval vm_compute in ("<<<M234>>>" ++ check (runes_of_ascii "options
-{ f32a= zchar[3
-//
-// c
-]
-// " ++ [128512]%N ++ runes_of_ascii " emoji
-//	t
-}	packet falsey
-{
-Z9_ ,body
-    @calculatedFrom( //
-""\n""
-// packet A { u8 x, }
-// c
-)
-    ,} options { }
-")).
-Eval vm_compute in ("<<<M1455>>>" ++ check (runes_of_ascii "packet B
-
-{
-	u8
-a
-, }
-    root
-	packet
-    P {u8
-K
-
-    ,u8
-L
-    @lengthOf( Body
-) ,	match
-K
-as
-Body {	1
-
-    :
-	B
-
-    ,	}
-
-    ,
-}
-")).
-Eval vm_compute in ("<<<M1977>>>" ++ check (runes_of_ascii "packet
-	A
-
-    { match
-
-    k as
-
-n {	[	""a""	,""bb""
-,
-007 ,
-
-""d""
-	, ""e"" ,
-
-66, ""g""
-    ,
-""h"" ,	9,
-    ""j"" ,
-""k"" ] : B	, 
-2
-:C
-
-}
-	,  } ")).
-Eval vm_compute in ("<<<M1608>>>" ++ check (runes_of_ascii "
+Eval vm_compute in ("<<<M1158>>>" ++ check (runes_of_ascii "// " ++ [128512]%N ++ runes_of_ascii " emoji
 MetaData
-
-    float
-    {
-	float64
-
-    charz
-
-    `
-` ,
-    }root packet chars
-
-    {
-@rightPad (// c
-    	'0')	Foo, }
-")).
-Eval vm_compute in ("<<<M1459>>>" ++ check (runes_of_ascii "packet B {
-    u8 a,
+    T {	i64_ crc `" ++ [233]%N ++ runes_of_ascii "`
+    , // " ++ [27880; 37322]%N ++ runes_of_ascii "
+rootA metadata , }
+    MetaData falsey {
 }
-root packet P {
+options{ _x	=""a\\"" zchar=
+    // " ++ [128512]%N ++ runes_of_ascii " emoji
+    int16 ; Logon=""a\""b""; options1 = char[ 10 ]; pack = // @lengthOf(
+1 ;  }
+")).
+Eval vm_compute in ("<<<M3438>>>" ++ check (runes_of_ascii "packet Logon {
+    string user,
+}
+root packet Frame {
     u8 K,
     match K as Body {
-        1 : B,
+        1 : Logon,
+        2 : Logout,
     },
-    u16 L @lengthOf(Body),
+    Tail,
+}
+packet Logout {
+    u16 reason,
+}
+packet Tail {
+    u32 crc,
 }
 ")).
-Eval vm_compute in ("<<<M1251>>>" ++ check (runes_of_ascii "root packet matchKey { zchar[ 3 ] pack @calculatedFrom( ""a	b"" ) `doc` , } options // c
-{ } MetaData A { int8 msg_type , }")).
-Eval vm_compute in ("<<<M1878>>>" ++ check (runes_of_ascii "packet metadata {
-    Logon {
-        // c
-        A `" ++ [28040; 24687; 31867; 22411]%N ++ runes_of_ascii "`,
-        tag o,
-    },
-    zchar len `// not a comment`,
-}")).
-Eval vm_compute in ("<<<M1935>>>" ++ check (runes_of_ascii "MetaData body {
-    BodyLength stringy,
-    //	t
-    zchar[42] o,
-    i64_ lengthOf `{ , }`,
-    u8 MetaDataX,
-}")).
-Eval vm_compute in ("<<<M2066>>>" ++ check (runes_of_ascii "MetaData
-float
-{  float64 charz `
-`,
-	}
-    root	packet
-	chars{ @rightPad ( 
-	    // c
-	'0'	)
-
+Eval vm_compute in ("<<<M1363>>>" ++ check (runes_of_ascii "
+MetaData
 Foo
+{
+    }MetaData leftPad {// c
+uint8 repeatCount `{ , }`	,
+    }
+// " ++ [27880; 37322]%N ++ runes_of_ascii "
+// trailing space 
+options { asx= ""CRC32"";
+MetaDataX =	char[ 4294967296 ]	; _x = '0' ;
+    trueish =	""a	b""; }
+")).
+Eval vm_compute in ("<<<M839>>>" ++ check (runes_of_ascii "//
+options { MetaDataX =
+    /// triple
+    """ ++ [28040; 24687]%N ++ runes_of_ascii """ ;
+chars  =
+// 50% %s
+//
+f64 options1 =42} root
+    packet
+    roots{ u8
+    metadata`tab	here`, BodyLength @lengthOf( body
+    ) //
+, }")).
+Eval vm_compute in ("<<<M252>>>" ++ check (runes_of_ascii "MetaData
+    u128
+{ u32 packetx, falsey tag ,
+    char[255 // a // b
+]
+leftPad ,	asx
+    metadata
+    `a\` , Foo Z9_,char[ 00
+] _x
+    `line1
+line2` ,} MetaData
+metadata { }")).
+Eval vm_compute in ("<<<M4029>>>" ++ check (runes_of_ascii "options {
+    string_ = ' '
+    Header = i8;
+    msg_type = zchar[00];
+    float = true
+    string_ = '\x00';
+}
+
+MetaData zchar {
+    zchar chars,
+}// `tick` ""quote"" 'q'")).
+Eval vm_compute in ("<<<M3917>>>" ++ check (runes_of_ascii "packet a1 {
+}
+
+MetaData u {
+}
+
+options {
+}
+
+MetaData msg_type {
+    Logon BodyLength,
+    i8i8 BodyLength `100% of %d`,
+    string Packet,
+}
+
+options {
+    //	t
+}")).
+Eval vm_compute in ("<<<M3634>>>" ++ check (runes_of_ascii "
+packet
+chars { @tag(//	t
+    007 )
+    roots zchar,
+} 
+packet
+MetaDataX 
+{ 
+}
+    // 50% %s
+  	// packet A { u8 x, }
+  MetaData
+
+    int
+
+    { }
+
+")).
+Eval vm_compute in ("<<<M2076>>>" ++ check (runes_of_ascii "MetaData BodyLength
+{ int8 Foo
+, string string
+    MetaDataX , float zchar ,pack options1
+,asx string_, }
+packet u8x {Foo@lengthOf(charz )
+`" ++ [28040; 24687; 31867; 22411]%N ++ runes_of_ascii "`,  }
+")).
+Eval vm_compute in ("<<<M3807>>>" ++ check (runes_of_ascii "packet A {
+    match k as n {
+        [
+            ""a"", 22, ""c c"", 4, ""e"",
+            66, ""g"", 8, ""i"", 10
+        ] : B,
+        2 : C,
+    },
+}")).
+Eval vm_compute in ("<<<M2007>>>" ++ check (runes_of_ascii "
+packet leftPad {
+@leftPad( '0')
+u32
+i64_ `100% of %d` ,repeat// 50% %s
+i8 chars
+    ,
+} MetaData MetaData
+    f32a
+{ // packet A { u8 x, }
+}")).
+Eval vm_compute in ("<<<M2073>>>" ++ check (runes_of_ascii "MetaData BodyLength
+{ int8 Foo
+) string
+    MetaDataX , float zchar ,pack options1
+,asx string_, }
+packet u8x {Foo@lengthOf(charz )
+`" ++ [28040; 24687; 31867; 22411]%N ++ runes_of_ascii "`,  }
+")).
+Eval vm_compute in ("<<<M1982>>>" ++ check (runes_of_ascii "
+packet leftPad {
+@leftPad( '0')
+u32
+i64_ `100% of %d` ,repeat repeat// 50% %s
+i8 chars
+    ,
+} MetaData
+    f32a
+{ // packet A { u8 x, }
+}")).
+Eval vm_compute in ("<<<M3561>>>" ++ check (runes_of_ascii "  // top
+	root 	 // c0a
+	  // c0b
+  	packet// c1a
+    // c1b
+	P
+
+    // c2
+	{ 
+    // c3
+
+	string // c4
+s// c5
+,  // c6a
+  // c6b
+    }
+")).
+Eval vm_compute in ("<<<M2037>>>" ++ check (runes_of_ascii "
+packet leftPad {
+@leftPad( '0''1' )
+u32
+i64_ `100% of %d` ,repeat// 50% %s
+i8 chars
+    ,
+} MetaData
+    f32a
+{ // packet A { u8 x, }
+}")).
+Eval vm_compute in ("<<<M2251>>>" ++ check (runes_of_ascii "options
+    {
+x_y_z// " ++ [27880; 37322]%N ++ runes_of_ascii "
+= 10 ; }
+packet float32 {
+    @calculatedFrom(
+// trailing space 
+// " ++ [27880; 37322]%N ++ runes_of_ascii "
+""1""
+)	match T as Foo
+    {
+255 :T , }
+,}")).
+Eval vm_compute in ("<<<M2296>>>" ++ check (runes_of_ascii "options
+    {
+x_y_z// " ++ [27880; 37322]%N ++ runes_of_ascii "
+= 10 ; }
+packet body {
+    @calculatedFrom(
+// trailing space 
+// " ++ [27880; 37322]%N ++ runes_of_ascii "
+""1""
+)	match T as Foo
+    i32
+255 :T , }
+,}")).
+Eval vm_compute in ("<<<M2346>>>" ++ check (runes_of_ascii "options
+    {
+x_y_z// " ++ [27880; 37322]%N ++ runes_of_ascii "
+= 10 ; }
+packet body {
+    @calculatedFrom(
+// trailing spa" ++ [65279]%N ++ runes_of_ascii "ce 
+// " ++ [27880; 37322]%N ++ runes_of_ascii "
+""1""
+)	match T as Foo
+    {
+255 :T , }
+,}")).
+Eval vm_compute in ("<<<M2110>>>" ++ check (runes_of_ascii "MetaData BodyLength
+{ int8 Foo
+, string
+    MetaDataX , float zchar ,pack 
+,asx string_, }
+packet u8x {Foo@lengthOf(charz )
+`" ++ [28040; 24687; 31867; 22411]%N ++ runes_of_ascii "`,  }
+")).
+Eval vm_compute in ("<<<M561>>>" ++ check (runes_of_ascii "
+MetaData As { char
+i64_
+`tab	here`
+    , char[ // packet A { u8 x, }
+0
+    ]
+    charz `crlf
+line` ,zchar[ 0123456789] metadata	, }")).
+Eval vm_compute in ("<<<M2411>>>" ++ check (runes_of_ascii "MetaData
+    calculatedFrom
+{ zchar[  10 ]
+    As`tab	here`,
+    }// trailing space 
+options  { roots roots ='\x00' ; } packet A
+{ }
+")).
+Eval vm_compute in ("<<<M2248>>>" ++ check (runes_of_ascii "options
+    {
+x_y_z// " ++ [27880; 37322]%N ++ runes_of_ascii "
+= 10 ; }
+packet  {
+    @calculatedFrom(
+// trailing space 
+// " ++ [27880; 37322]%N ++ runes_of_ascii "
+""1""
+)	match T as Foo
+    {
+255 :T , }
+,}")).
+Eval vm_compute in ("<<<M3674>>>" ++ check (runes_of_ascii "// top
+    root 
+      // c0
+	  packet// c1a
+	// c1b
+
+	u128 
+    // c2
+
+{
+
+// c3
+    chars`doc`
+,  
+  // c6
+	} 
+	    // c7
+ 
+")).
+Eval vm_compute in ("<<<M3815>>>" ++ check (runes_of_ascii "packet A {
+    match k as n {
+        [
+            1, 22, ""c c"", 4, 5,
+            ""f""
+        ] : B,
+        2 : C,
+    },
+}")).
+Eval vm_compute in ("<<<M3812>>>" ++ check (runes_of_ascii "
+root
+packet  falsey
+	{
+    int
+
+    falsey
+
+    , u8 Packet @lengthOf(f32a	) 
+`u8 x,`,  } 	 // `tick` ""quote"" 'q'
+ 
+")).
+Eval vm_compute in ("<<<M245>>>" ++ check (runes_of_ascii "packet i64_ {
+Logon{ u8
+// a // b
+// " ++ [27880; 37322]%N ++ runes_of_ascii "
+i8i8//	t
+@calculatedFrom(""" ++ [233]%N ++ runes_of_ascii "t" ++ [233]%N ++ runes_of_ascii """)
+    ,} //x
+, } packet lengthOf
+// c
+// c
+{ }
+")).
+Eval vm_compute in ("<<<M1868>>>" ++ check (runes_of_ascii "packet o {
+    roots `it's`
+// trailing space 
+//x
+, char[ 42
+    ] ]  A, // " ++ [27880; 37322]%N ++ runes_of_ascii "
+f64
+repeatCount
+    `crlf
+line`
+,}")).
+Eval vm_compute in ("<<<M3962>>>" ++ check (runes_of_ascii "options {
+    MetaDataX = 0
+    matchKey = '0';
+    BodyLength = '\x00';
+    packetx = char[];
+    charz = '\x00'
+}")).
+Eval vm_compute in ("<<<M1833>>>" ++ check (runes_of_ascii "packet  {
+    roots `it's`
+// trailing space 
+//x
+, char[ 42
+    ]  A, // " ++ [27880; 37322]%N ++ runes_of_ascii "
+f64
+repeatCount
+    `crlf
+line`
+,}")).
+Eval vm_compute in ("<<<M275>>>" ++ check (runes_of_ascii "
+packet _x { }
+packet msg_type
+    {	@lengthOf( f32a ) u8x Z9_
+, } MetaData /// triple
+chars { string T
+, } //x")).
+Eval vm_compute in ("<<<M3086>>>" ++ check (runes_of_ascii "packet A {
+    match k as n {
+        ""\
+"" : B,
+        [""\
+"", 1] : C,
+        [1,2,3,4,5,""\
+""] : D,
+    },
+}")).
+Eval vm_compute in ("<<<M3667>>>" ++ check (runes_of_ascii "packet
+
+A {
+
+    Inner{
+match
+
+    k
+    as n{	[1 
+,	22
+
+,
+
+    007  , 4
+
+    ]
+
+:
+	B , }	, }, } ")).
+Eval vm_compute in ("<<<M3039>>>" ++ check (runes_of_ascii "packet A {
+    Inner {
+        u8 x `a
+
+b`,
+        Deep {
+            u8 y `a
+
+b`,
+        },
+    },
+}")).
+Eval vm_compute in ("<<<M4128>>>" ++ check (runes_of_ascii "// " ++ [128512]%N ++ runes_of_ascii " emoji
+options {
+    repeatCount = '\x00'
+}
+
+// 50% %s
+// packet A { u8 x, }
+MetaData uint8x {
+}")).
+Eval vm_compute in ("<<<M3069>>>" ++ check (runes_of_ascii "packet A {
+    Inner {
+        u8 x `%`,
+        Deep {
+            u8 y `%`,
+        },
+    },
+}")).
+Eval vm_compute in ("<<<M4232>>>" ++ check (runes_of_ascii "MetaData
+asx
+{ float32
+charz
+    `u8 x,`,
+}
+MetaData /// triple
+tag
+{
+
+char[ 0 
+]
+falsey ,}
+")).
+Eval vm_compute in ("<<<M3366>>>" ++ check (runes_of_ascii "packet  Inner{
+
+u8 a
+,
+} root
+    packet
+	P
+    { repeat
+Inner
+items
+
+    ,u8
+x
+    , }
+
+")).
+Eval vm_compute in ("<<<M3576>>>" ++ check (runes_of_ascii "MetaData Pad {
+    uint64 options1,
+    int32 roots,
+    int16 A ``,
+    msg_type trueish,
+}")).
+Eval vm_compute in ("<<<M1424>>>" ++ check (runes_of_ascii "packet
+T
+match { repeatCount as	calculatedFrom
+{ [65535 ]	: As	,
+} ,}
+// trailing space 
+")).
+Eval vm_compute in ("<<<M1417>>>" ++ check (runes_of_ascii "packet
+
+{ match repeatCount as	calculatedFrom
+{ [65535 ]	: As	,
+} ,}
+// trailing space 
+")).
+Eval vm_compute in ("<<<M3572>>>" ++ check (runes_of_ascii "packet	A
+    { match 
+k
+    as n{  [""a""
+
+,
+""bb""	,  ""c c"" 
+] :
+    B 2
+
+: C } ,
+
+    }
+")).
+Eval vm_compute in ("<<<M1766>>>" ++ check (runes_of_ascii "options{  lengthOf =//x
+i16;
+    BodyLength = 0 ; pack
+= = false;
+    A = char[ 3 ] }")).
+Eval vm_compute in ("<<<M1825>>>" ++ check (runes_of_ascii "options{  lengthOf =//x
+i16;
+    BodyLength = 0 ; pack
+= false<;
+    A = char[ 3 ] }")).
+Eval vm_compute in ("<<<M2124>>>" ++ check (runes_of_ascii "MetaData BodyLength
+{ int8 Foo
+, string
+    MetaDataX , float zchar ,pack options1
+,")).
+Eval vm_compute in ("<<<M4175>>>" ++ check (runes_of_ascii "packet
+    u8x {
+}
+
+    MetaData crc 
+{
+
+// c
+
+char[
+    4294967296
+	] Foo  , }
+")).
+Eval vm_compute in ("<<<M1200>>>" ++ check (runes_of_ascii "//
+options { } packet leftPad{ }packet trueish{
+    i8 pack	,
+} packet body {
+}
+")).
+Eval vm_compute in ("<<<M3246>>>" ++ check (runes_of_ascii "MetaData
+// c
+Foo { zchar[ 0 ] matchKey , } options { lengthOf = i32 u = 00 ; }")).
+Eval vm_compute in ("<<<M3278>>>" ++ check (runes_of_ascii "MetaData Foo { zchar[ 0 ] matchKey , } options { lengthOf = i32 u = 00
+// c
+; }")).
+Eval vm_compute in ("<<<M1995>>>" ++ check (runes_of_ascii "
+packet leftPad {
+@leftPad( '0')
+u32
+i64_ `100% of %d` ,repeat// 50% %s
+i8")).
+Eval vm_compute in ("<<<M1098>>>" ++ check (runes_of_ascii "options {}
+packet
+Pad  { }
+root	packet i64_ { repeat char[ 1	] Z9_
 , }
 ")).
-Eval vm_compute in ("<<<M1480>>>" ++ check (runes_of_ascii "// top
-root // c0a
-  // c0b
-packet P // c2a
-  // c2b
-{ // c3
-string
-    // c4
-s
-    // c5
-,
-    // c6
-} ")).
-Eval vm_compute in ("<<<M460>>>" ++ check (runes_of_ascii "packet
-    // `tick` ""quote"" 'q'
-    crc
-// packet A { u8 x, }
-//	t
-{
-u32 a1 ,
-    // trailing space")).
-Eval vm_compute in ("<<<M850>>>" ++ check (runes_of_ascii "packet A {
-  match k as n {
-    [""a"", ""bb"", ""c c"", ""d"", ""e"", ""f"", ""g"", ""h""] : B
-    2 : C
-  },
-}")).
-Eval vm_compute in ("<<<M1838>>>" ++ check (runes_of_ascii "packet
-	A
-
-    {
-match
-k as
-	n  {
-[ // a
-  1 // b
-
-  , // c
-2	]	// d
-	:B  } ,
-
+Eval vm_compute in ("<<<M1114>>>" ++ check (runes_of_ascii "packet	tag{ zchar[ 7 ] _x , repeat zchar[ 007] As
+`crlf
+line` ,
     }
 ")).
-Eval vm_compute in ("<<<M873>>>" ++ check (runes_of_ascii "packet A {
+Eval vm_compute in ("<<<M2893>>>" ++ check (runes_of_ascii "packet A {
   match k as n {
-    [1, 22, 007, 4, 5, 66, 7, 8, 9, 10] : B,
+    [""a"", ""bb"", 007] : B
     2 : C
   },
 }")).
-Eval vm_compute in ("<<<M1210>>>" ++ check (runes_of_ascii "MetaData float { float64 charz `
-` , } root packet chars { @rightPad ( '0' ) // c
-Foo , }")).
-Eval vm_compute in ("<<<M1421>>>" ++ check (runes_of_ascii "packet chars { } packet MetaDataX { @tag( 42 ) i16 string_ ,
-// c
-repeat x `say ""hi""` , }")).
-Eval vm_compute in ("<<<M129>>>" ++ check (runes_of_ascii "MetaData
-    charz { } packet
-    // " ++ [27880; 37322]%N ++ runes_of_ascii "
-    matchKey {
-    a1
-    repeatCount
-    , }
-")).
-Eval vm_compute in ("<<<M1151>>>" ++ check (runes_of_ascii "packet metadata { Logon { A `" ++ [28040; 24687; 31867; 22411]%N ++ runes_of_ascii "` , tag o , } , zchar
-// c
-len `// not a comment` , }")).
-Eval vm_compute in ("<<<M1356>>>" ++ check (runes_of_ascii "packet o { repeat Logon uint8x , } options // c
-{ asx = zchar[ 3 ] stringy = '\x00' }")).
-Eval vm_compute in ("<<<M1734>>>" ++ check (runes_of_ascii "MetaData falsey {
-    //x
-    //	t
-    char[65535] Packet `{ , }`,// @lengthOf(
-}//x")).
-Eval vm_compute in ("<<<M1317>>>" ++ check (runes_of_ascii "MetaData body { i64 pack `it's` , // c
-} packet stringy { int16 calculatedFrom , }")).
-Eval vm_compute in ("<<<M282>>>" ++ check (runes_of_ascii "
-packet charz{ repeat u16 Foo`{ , }`// c
-,
-//
-//
-} options
-    { crc = """ ++ [28040; 24687]%N ++ runes_of_ascii """ ;	}")).
-Eval vm_compute in ("<<<M805>>>" ++ check (runes_of_ascii "packet A {
-  match k as n {
-    [""a"", ""bb"", 007, ""d""] : B,
-    2 : C
-  },
-}")).
-Eval vm_compute in ("<<<M1773>>>" ++ check (runes_of_ascii "
-packet x
-{
-@rightPad
-// c
-  ( ) repeat roots
-Logon
-    `doc` ,
-}")).
-Eval vm_compute in ("<<<M782>>>" ++ check (runes_of_ascii "packet A {
-  match k as n {
-    [1, 22, 007] : B,
-    2 : C
-  },
-}")).
-Eval vm_compute in ("<<<M1379>>>" ++ check (runes_of_ascii "// top
-MetaData
-    // c0
-o
-    // c1
-{
-    // c2
-}
-    // c3
-")).
-Eval vm_compute in ("<<<M1277>>>" ++ check (runes_of_ascii "packet
-// c
-x { @rightPad ( ) repeat roots Logon `doc` , }")).
-Eval vm_compute in ("<<<M769>>>" ++ check (runes_of_ascii "packet A {
-  match k as n {
-    [1] : B
-    2 : C
-  },
-}")).
-Eval vm_compute in ("<<<M739>>>" ++ check (runes_of_ascii "u8 : uint16 f32 zchar @calculatedFrom( ] ' ' ' '")).
-Eval vm_compute in ("<<<M2113>>>" ++ check (runes_of_ascii "packet
-    A
-    {
-
-    } 
-        // c" ++ [6158]%N ++ runes_of_ascii "
-")).
-Eval vm_compute in ("<<<M1105>>>" ++ check (runes_of_ascii "root packet u128
-// c
-{ chars `it's` , }")).
-Eval vm_compute in ("<<<M243>>>" ++ check (runes_of_ascii "// c
-root packet
-calculatedFrom { }
-")).
-Eval vm_compute in ("<<<M1598>>>" ++ check (runes_of_ascii "packet A {
-    u8 x `d" ++ [8192]%N ++ runes_of_ascii "`,// c" ++ [8192]%N ++ runes_of_ascii "
-}")).
-Eval vm_compute in ("<<<M1870>>>" ++ check (runes_of_ascii "
-
-  packet BodyLength{
-    }
-
-")).
-Eval vm_compute in ("<<<M2087>>>" ++ check (runes_of_ascii "
-packet
-A{
-	}
-    // c" ++ [133]%N ++ runes_of_ascii "
-")).
-Eval vm_compute in ("<<<M2132>>>" ++ check (runes_of_ascii "// c" ++ [8239]%N ++ runes_of_ascii "
-packet A
-
-{
+Eval vm_compute in ("<<<M3392>>>" ++ check (runes_of_ascii "root packet P {
+    u16 a,
+    u32 Sum @calculatedFrom(""CRC32""),
 }
 ")).
-Eval vm_compute in ("<<<M987>>>" ++ check (runes_of_ascii "// c" ++ [133]%N ++ runes_of_ascii "
-packet A {
+Eval vm_compute in ("<<<M4440>>>" ++ check (runes_of_ascii "root packet P {
+    u8 s_u8,
+    repeat u8 r_u8,
+    u16 b_len,
 }")).
-Eval vm_compute in ("<<<M725>>>" ++ check (runes_of_ascii "// only a comment")).
-Eval vm_compute in ("<<<M1991>>>" ++ check (runes_of_ascii "MetaData o {
+Eval vm_compute in ("<<<M3315>>>" ++ check (runes_of_ascii "packet u8x { } MetaData crc { char[ 4294967296 ] Foo , } // c
+")).
+Eval vm_compute in ("<<<M3302>>>" ++ check (runes_of_ascii "packet u8x { } MetaData crc
+// c
+{ char[ 4294967296 ] Foo , }")).
+Eval vm_compute in ("<<<M628>>>" ++ check (runes_of_ascii "
+MetaData float  {int16 options1 , int8 u128
+    `{ , }`, }")).
+Eval vm_compute in ("<<<M3775>>>" ++ check (runes_of_ascii "packet A {
+    match k as n {
+        [1, 2] : B,
+    },
 }")).
-Eval vm_compute in ("<<<M970>>>" ++ check (runes_of_ascii "// c ")).
-Eval vm_compute in ("<<<M723>>>" ++ check (runes_of_ascii "")).
+Eval vm_compute in ("<<<M45>>>" ++ check (runes_of_ascii "root packet // " ++ [27880; 37322]%N ++ runes_of_ascii "
+tag { // trailing space 
+leftPad , }")).
+Eval vm_compute in ("<<<M3912>>>" ++ check (runes_of_ascii "options
+{
+    pack	= zchar[	255 
+] // 50% %s
+		}
+")).
+Eval vm_compute in ("<<<M3802>>>" ++ check (runes_of_ascii "MetaData As {
+    f32a options1,
+    crc Logon,
+}")).
+Eval vm_compute in ("<<<M3065>>>" ++ check (runes_of_ascii "root packet A {
+    u8 x `100% of %s %d %v`,
+}")).
+Eval vm_compute in ("<<<M2732>>>" ++ check (runes_of_ascii "false ""a\""b"" @lengthOf( @calculatedFrom( ) ;")).
+Eval vm_compute in ("<<<M3078>>>" ++ check (runes_of_ascii "options {
+    a = ""x\
+y"";
+    b = ""x\
+y""
+}")).
+Eval vm_compute in ("<<<M2617>>>" ++ check (runes_of_ascii "packet A { match k as n { [1 2] : B }, }")).
+Eval vm_compute in ("<<<M3232>>>" ++ check (runes_of_ascii "root packet u128 { chars `doc`
+// c
+, }")).
+Eval vm_compute in ("<<<M2381>>>" ++ check (runes_of_ascii "MetaData
+Foo {Header //
+pack ,	} } 	 ")).
+Eval vm_compute in ("<<<M2612>>>" ++ check (runes_of_ascii "packet A { match k as n { 1 : B }, }")).
+Eval vm_compute in ("<<<M2756>>>" ++ check (runes_of_ascii ") packet @calculatedFrom( u16 i32 :")).
+Eval vm_compute in ("<<<M752>>>" ++ check (runes_of_ascii "packet As {}root packet f32a { }
+")).
+Eval vm_compute in ("<<<M3047>>>" ++ check (runes_of_ascii "root packet A {
+    u8 x `x
+`,
+}")).
+Eval vm_compute in ("<<<M4161>>>" ++ check (runes_of_ascii "root packet P {
+    string s,
+}")).
+Eval vm_compute in ("<<<M908>>>" ++ check (runes_of_ascii "MetaData MetaDataX
+    {//
+}
+")).
+Eval vm_compute in ("<<<M3340>>>" ++ check (runes_of_ascii "options // c
+{ u8x = false }")).
+Eval vm_compute in ("<<<M3916>>>" ++ check (runes_of_ascii "packet A {
+    char[3] x,
+}")).
+Eval vm_compute in ("<<<M2586>>>" ++ check (runes_of_ascii "packet A { char[ x ] y, }")).
+Eval vm_compute in ("<<<M625>>>" ++ check (runes_of_ascii "options { Z9_= ""1"" ; }
+")).
+Eval vm_compute in ("<<<M174>>>" ++ check (runes_of_ascii "
+root packet i8i8
+{}
+")).
+Eval vm_compute in ("<<<M2374>>>" ++ check (runes_of_ascii "MetaData
+Foo {Header")).
+Eval vm_compute in ("<<<M3157>>>" ++ check (runes_of_ascii "packet A {
+}
+// c 	")).
+Eval vm_compute in ("<<<M3122>>>" ++ check (runes_of_ascii "packet A {
+}
+// c" ++ [8202]%N)).
+Eval vm_compute in ("<<<M1436>>>" ++ check (runes_of_ascii "packet
+T
+{ match")).
+Eval vm_compute in ("<<<M4434>>>" ++ check (runes_of_ascii "packet Header {
+}")).
+Eval vm_compute in ("<<<M3188>>>" ++ check (runes_of_ascii "
+
+  packet A {}")).
+Eval vm_compute in ("<<<M697>>>" ++ check (runes_of_ascii "options {
+}
+")).
+Eval vm_compute in ("<<<M2643>>>" ++ check (runes_of_ascii "packet A {")).
+Eval vm_compute in ("<<<M2512>>>" ++ check (runes_of_ascii "// ab
+c")).
+Eval vm_compute in ("<<<M2470>>>" ++ check (runes_of_ascii "repeat")).
+Eval vm_compute in ("<<<M2521>>>" ++ check (runes_of_ascii """ab""")).
+Eval vm_compute in ("<<<M2477>>>" ++ check (runes_of_ascii "ROOT")).
+Eval vm_compute in ("<<<M2506>>>" ++ check (runes_of_ascii "/ /")).
+Eval vm_compute in ("<<<M2503>>>" ++ check (runes_of_ascii "@@")).
+Eval vm_compute in ("<<<M2691>>>" ++ check (runes_of_ascii "")).
